@@ -8,7 +8,16 @@
 #include <GeographicLib/LambertConformalConic.hpp>
 #include <GeographicLib/AlbersEqualArea.hpp>
 #include <GeographicLib/Math.hpp>
+#include <GeographicLib/DMS.hpp>
+#include <GeographicLib/Utility.hpp>
 #include <memory>
+#include <fstream>
+#include <sstream>
+// tools/ConicProj.cpp of the *current* $GV_REPO is compiled into this harness (same library build, same sanitizers);
+// its `main` and `usage` live in a namespace (the headers it includes are included above: the inner #includes are no-ops)
+namespace tool_conicproj {
+#include "../tools/ConicProj.cpp"
+}
 using namespace GeographicLib; using namespace gv; using c11::Q;
 typedef long double LD;
 
@@ -42,6 +51,13 @@ struct Obj {
   }
   void Rev(bool np, double lon0, double x, double y, double& lat, double& lon, double& g, double& k) const {
     if (cls == 0) ps->Reverse(np, x, y, lat, lon, g, k); else if (cls == 1) lcc->Reverse(lon0, x, y, lat, lon, g, k); else alb->Reverse(lon0, x, y, lat, lon, g, k);
+  }
+  // the overloads without convergence and scale
+  void Fwd2(bool np, double lon0, double lat, double lon, double& x, double& y) const {
+    if (cls == 0) ps->Forward(np, lat, lon, x, y); else if (cls == 1) lcc->Forward(lon0, lat, lon, x, y); else alb->Forward(lon0, lat, lon, x, y);
+  }
+  void Rev2(bool np, double lon0, double x, double y, double& lat, double& lon) const {
+    if (cls == 0) ps->Reverse(np, x, y, lat, lon); else if (cls == 1) lcc->Reverse(lon0, x, y, lat, lon); else alb->Reverse(lon0, x, y, lat, lon);
   }
   double lat0() const { return cls == 1 ? lcc->OriginLatitude() : cls == 2 ? alb->OriginLatitude() : 90; }
   double k0() const { return cls == 0 ? ps->CentralScale() : cls == 1 ? lcc->CentralScale() : alb->CentralScale(); }
@@ -83,7 +99,7 @@ static c11::Proj oracle(const Cfg& c) {
   static std::map<std::string, c11::Proj> memo;
   std::string key = join(enc(c));
   auto it = memo.find(key); if (it != memo.end()) return it->second;
-  if (memo.size() > 32) memo.clear();
+  if (memo.size() > 96) memo.clear();
   c11::Proj P(c.cls, c.a, c.f); P.kap = c.k1; if (c.cls == 0) P.n = 1;
   if (c.cls != 0) {
     c11::SC a1, a2;
@@ -97,18 +113,126 @@ static c11::Proj oracle(const Cfg& c) {
 }
 
 // ---------------------------------------------------------------------------------------------------------------
+// condition of the problem: how far one ulp of each input (f, the standard parallels or their sines and cosines, the SetScale
+// latitude; lat, lon, lon0 of the point) moves the *exact* answer -- the closed-form oracle evaluated at the neighbouring
+// binary64 inputs.  a and k1 are pure scale factors.  Latitudes, sines and cosines are stepped towards zero (they stay in range).
+static double toward0(double x) { return x == 0 ? x : std::nextafter(x, 0.0); }
+static std::vector<Cfg> cfg_neighbours(const Cfg& c) {
+  std::vector<Cfg> v; Cfg d = c; d.f = std::nextafter(c.f, -INFINITY); v.push_back(d);
+  if (c.cls != 0) {
+    if (c.kind == 1) { d = c; d.p[0] = toward0(c.p[0]); v.push_back(d); }
+    else if (c.kind == 2) { if (c.p[0] == c.p[1]) { d = c; d.p[0] = d.p[1] = toward0(c.p[0]); v.push_back(d); } else for (int i = 0; i < 2; ++i) { d = c; d.p[i] = toward0(c.p[i]); v.push_back(d); } }
+    else { bool same = c.p[0] == c.p[2] && c.p[1] == c.p[3];
+      for (int i = 0; i < (same ? 2 : 4); ++i) { d = c; d.p[i] = toward0(c.p[i]); if (same) d.p[i + 2] = d.p[i]; v.push_back(d); } }
+  }
+  if (c.ss) { d = c; d.sslat = toward0(c.sslat); v.push_back(d); }
+  return v;
+}
+struct Cond { double xy = 0, k = 0, g = 0; };
+static Cond cond_pt(const Cfg& c, bool np, double lon0, double lat, double lon, const c11::Out& w) {
+  Cond r; if (!(w.ok && c11::fin(w.x) && c11::fin(w.y))) return r;
+  auto acc = [&](const c11::Out& v) { if (!(v.ok && c11::fin(v.x) && c11::fin(v.y))) return;
+    double d = c11::dbl(fabsq(v.x - w.x) + fabsq(v.y - w.y)); if (std::isfinite(d)) r.xy += d;
+    if (w.kok && v.kok) { double dk = c11::dbl(fabsq(v.k - w.k)); if (std::isfinite(dk)) r.k += dk; }
+    Q dg = fabsq(v.gamma - w.gamma); if (dg > 180) dg = fabsq(dg - 360); double g = c11::dbl(dg); if (std::isfinite(g)) r.g += g; };
+  for (const Cfg& d : cfg_neighbours(c)) acc(oracle(d).fwd(np, lon0, lat, lon));
+  c11::Proj P = oracle(c);
+  if (std::fabs(lat) > 0) acc(P.fwd(np, lon0, toward0(lat), lon));
+  acc(P.fwd(np, lon0, lat, std::nextafter(lon, INFINITY))); if (c.cls != 0) acc(P.fwd(np, std::nextafter(lon0, INFINITY), lat, lon));
+  return r;
+}
+// the same for the latitude of origin (degrees)
+static double cond_lat0(const Cfg& c) {
+  c11::Proj P = oracle(c); Q l = atan2q(P.p0.s, P.p0.c); double r = 0;
+  for (const Cfg& d : cfg_neighbours(c)) { c11::Proj V = oracle(d); double e = c11::dbl(fabsq(atan2q(V.p0.s, V.p0.c) - l) * 180 / c11::PIq); if (std::isfinite(e)) r += e; }
+  return r;
+}
+static const double NULP = 32;   // ulps granted on every input
+
+// ---------------------------------------------------------------------------------------------------------------
 // tolerances (documented: "about 10 nm, true distance"; scale relative error 7e-15 => a term proportional to the
-// projected distance from the origin; safety factor 4)
-static double tol_plane(const Cfg& c, double R, double k) { return 4 * (10e-9 * (c.a / 6378137.0) * std::fmax(1.0, k) + 1e-14 * R); }
-static double tol_ground(const Cfg& c, double R, double k) { double kk = std::fmax(k, 1 / k); if (!(kk < 1e300)) kk = 1; return 4 * (10e-9 * (c.a / 6378137.0) + 1e-14 * R * kk); }
+// projected distance from the origin; safety factor 4).  The headers give these figures without naming an ellipsoid;
+// they were established for terrestrial flattening.  Away from it every tolerance is multiplied by
+//   kappa(f) = max(1, b/a, (a/b)^2):
+// (a/b)^2 = 1/(1 - e^2) is the condition number of the stored eccentricity (the closed forms contain 1 - e^2 sin^2 phi,
+// whose relative sensitivity to one ulp of e^2 is e^2/(1 - e^2) at the poles; the same factor 1 + |e'^2| as in C15), and
+// b/a is the size of a prolate ellipsoid in units of a (the documented absolute figures are for a body of size a).
+static double e2of(double f) { return f * (2 - f); }
+static double kappa(double f) { double fm = 1 - f; return std::fmax(1.0, std::fmax(fm, 1 / (fm * fm))); }
+static double tol_plane(const Cfg& c, double R, double k) { return 4 * kappa(c.f) * (10e-9 * (c.a / 6378137.0) * std::fmax(1.0, k) + 1e-14 * R); }
+static double tol_ground(const Cfg& c, double R, double k) { double kk = std::fmax(k, 1 / k); if (!(kk < 1e300)) kk = 1; return 4 * kappa(c.f) * (10e-9 * (c.a / 6378137.0) + 1e-14 * R * kk); }
 // The documented error of the latitude of origin for two distinct parallels (4.5e-14 degrees) is for terrestrial
 // flattening; the careful evaluation of 1 - n in Init cancels terms of order e^2, so it is scaled by e^2/e^2(WGS84)
 // up to |f| = 1/120 and by a flat factor 1000 (sub-micrometre -> sub-millimetre) for the strongly non-spherical test
-// ellipsoids f = +-0.1, for which the library documents no figure.  It displaces the whole map along the central meridian.
-static double gflat(const Cfg& c) { double r = std::fabs(c.f * (2 - c.f)) / 0.0066943799901413165; return r <= 2.5 ? std::fmax(1.0, r) : 1000.0; }   // |f| <= 1/120: proportional; beyond (the f = +-0.1 strata): three orders of magnitude
+// ellipsoids f = +-0.1, for which the library documents no figure.  Beyond |f| = 0.1 it keeps growing like e^2/e^2(WGS84)
+// times kappa(f) (never below the factor granted to f = +-0.1).  It displaces the whole map along the central meridian and
+// changes the cone constant.
+static double gflat(const Cfg& c) { double r = std::fabs(e2of(c.f)) / 0.0066943799901413165; return r <= 2.5 ? std::fmax(1.0, r) : std::fmax(1000.0, r * kappa(c.f)); }
 static bool distinct_parallels(const Cfg& c) { return c.cls != 0 && !(c.kind == 1 || (c.kind == 2 && c.p[0] == c.p[1]) || (c.kind == 3 && c.p[0] == c.p[2] && c.p[1] == c.p[3])); }
-static double origin_slack(const Cfg& c) { return distinct_parallels(c) ? 4 * 4.5e-14 * Math::degree() * c.a * gflat(c) : 0.0; }
+// meridional radius of curvature in units of a: a/b at the poles of an oblate, (b/a)^2 at the equator of a prolate ellipsoid
+static double mfac(double f) { double fm = 1 - f; return std::fmax(1.0, std::fmax(1 / fm, fm * fm)); }
+static double origin_slack(const Cfg& c) { return distinct_parallels(c) ? 4 * 4.5e-14 * Math::degree() * c.a * mfac(c.f) * gflat(c) : 0.0; }
+// the scale that converts a ground error into a plane error: k for the conformal classes; Albers stretches east-west by k and north-south by 1/k
+// (the Albers plane is the unit-scale plane stretched east-west by k0 and north-south by 1/k0: a plane error of the unit-scale map
+//  grows by max(k0, 1/k0); cur_k0 is the central scale of the object of the running op)
+static double& cur_k0() { static double k = 1; return k; }
+static double kplane(const Cfg& c, double k) { if (c.cls != 2) return k; double k0 = cur_k0(); if (!(k0 > 0 && k0 < 1e300)) k0 = 1; return std::fmax(1.0, k) * std::fmax(1.0, 1 / k0); }
+// the effect of that error of the origin on a point at distance R from it: the map is displaced along the central meridian
+// (magnified by the local scale), and the cone constant sin(lat0) changes with it, which bends the parallels: R^2/(2 a) per radian
+// (x = a m0 k1 lambda, y_curvature = x^2 n / (2 a m0) times k1 for Albers, over k1 for the conformal cone)
+static double oslack(const Cfg& c, double R, double k) { double kk = std::fmax(1.0, std::fmin(k, 1e300)); return origin_slack(c) * (kk + (R / c.a) * (R / c.a) * kplane(c, c.ss ? 1.0 : c.k1)); }
 static std::string num(double x) { char b[40]; std::snprintf(b, sizeof b, "%.17g", x); return b; }
+
+// ---------------------------------------------------------------------------------------------------------------
+// classes of open findings: decided from the configuration alone (never from what the implementation returned) and
+// appended to the details of every failing-input line of such a configuration, so that known_findings.json can name
+// exactly that class; anything outside a class still alarms.
+static void rawsc(const Cfg& c, double& s1, double& c1, double& s2, double& c2);
+static std::string finding_class(const Cfg& c) {
+  std::string t;
+  // (the classes of the repaired findings F84 Deatanhe guard, F85 DDatanhee2 selection for prolate ellipsoids, F86 Newton cycle in
+  // Albers Init, F88 five Newton iterations in tauf/tphif are gone: a regression alarms)
+  // F98 (open): the stopping tolerance of Math::tauf is relative to |taup|; on a prolate ellipsoid |taup|/|tau| reaches exp(e atan e)
+  // (164 at f = -3, 4000 at f = -5), the Newton loop then stops with a step of up to 1.5e-8 exp(e atan e) |tau| and the quadratic
+  // remainder (1e-12 relative at f = -5) is returned.  The class: the projections that invert the conformal latitude, f <= -3
+  if (c.cls != 2 && c.f <= -3) t += " [class:tauf-prolate-stop-rule]";
+  // F89 (open):
+  // LCC: Snyder's t0^n is kept as _t0nm1 = t0^n - 1 and recovered as _t0nm1 + 1 with an absolute error of one ulp of 1, i.e. the
+  // radius rho0 = (scale/n) t0^n with an absolute error eps * scale/n, scale = a k1 n F.  The class: that error alone exceeds the
+  // documented budget, n F eps a >= 4 kappa 10 nm (a/a_WGS84), i.e. n F >= 28 kappa (only strongly prolate ellipsoids, where the
+  // isometric latitude gains |e| atan|e| and F grows like its exponential)
+  // (a polar cone: t0^n = 0, n = 1, F = 2/sqrt((1+e)^(1+e) (1-e)^(1-e)); there Reverse forms tnm1 + 1 with the same absolute error)
+  if (c.cls == 1 && c.f < 0) { Cfg c0 = c; c0.ss = 0; c11::Proj P = oracle(c0);
+    if (P.polar ? c11::dbl(2 / P.E.cps()) >= 28 * kappa(c.f) : (!P.cyl && c11::fin(P.F) && c11::dbl(fabsq(P.n * P.F)) >= 28 * kappa(c.f))) t += " [class:lcc-prolate-t0nm1]";
+    // F99 (open): Reverse in the branch 2n <= 1 updates tan(chi) by Dsinh(psi, psi0), whose cosh((psi + psi0)/2) = sqrt((sinh sinh + cosh cosh + 1)/2)
+    // cancels when psi psi0 < 0: exp(2 min(|psi|, |psi0|))/2 ulp are lost.  With 2n <= 1 (origin below 30 degrees) |psi0| <= 0.55 on
+    // terrestrial ellipsoids, but the isometric latitude of a prolate one gains e atan(e sin phi).  The class: LCC, f < 0, 2|n| <= 1 and
+    // exp(2 |psi0|) >= 256 kappa (the lost digits alone exceed the documented budget: eps exp(2 |psi0|)/8 >= 4 kappa 10 nm / a_WGS84)
+    if (!P.polar && !P.cyl && c11::fin(P.F) && 2 * c11::dbl(fabsq(P.n)) <= 1 && c11::dbl(expq(2 * fabsq(logq(P.E.t(P.p0))))) >= 256 * kappa(c.f)) t += " [class:lcc-prolate-dsinh]"; }
+  if (c.cls == 0) return t;
+  double s1, c1, s2, c2; rawsc(c, s1, c1, s2, c2); if (!(std::isfinite(s1) && std::isfinite(s2))) return t;
+  { double r = std::hypot(s1, c1); s1 /= r; c1 /= r; r = std::hypot(s2, c2); s2 /= r; c2 /= r; }
+  // f >= 0.9 (1/(1 - e^2) >= 100) and a standard parallel within 0.01 degrees of a pole without being the pole: Forward between that
+  // parallel and the pole (radius a difference of nearly equal numbers) is off by far more than the condition number allows, also for one parallel
+  if (c.f >= 0.9 && std::fmin(c1, c2) < 2e-4 && std::fmin(c1, c2) > 0 && (!distinct_parallels(c) || (s1 == s2 && c1 == c2))) t += " [class:oblate-init-accuracy]";
+  if (!distinct_parallels(c) || (s1 == s2 && c1 == c2)) return t;
+  // F99 (open), its part in Init: the careful evaluation of 1 - n (taken for n >= 1/4) calls Dsinh on the pairs (xiZ, xi1), (xiZ, xi2), (xi1, xi2) of
+  // xi = eatanhe(sin phi); with parallels in opposite hemispheres two of the pairs have opposite signs and exp(2 |xi1|)/2 ulp are lost in 1 - n
+  // (xi1 of the parallel nearer the equator; |xi| = e atan(e |sin phi|) on a prolate ellipsoid, < e^2 on an oblate one) -- _nc is then off and the
+  // renormalisation n/hypot(n, nc) spoils n.  The class: LCC, f < 0, parallels in opposite hemispheres, exp(2 |xi1|) >= 256 kappa (n >= 1/4 is not
+  // tested: it is a property of the computed n)
+  if (c.cls == 1 && c.f < 0 && s1 * s2 < 0) { double e = std::sqrt(std::fabs(e2of(c.f))), xi1 = e * std::atan(e * std::fmin(std::fabs(s1), std::fabs(s2)));
+    if (std::exp(2 * xi1) >= 256 * kappa(c.f)) t += " [class:lcc-prolate-dsinh-init]"; }
+  // F87 (open): f >= 0.5 (1/(1 - e^2) >= 4), two distinct parallels: the divided-difference evaluation of the cone constant and of the origin in
+  // Init loses accuracy much faster than the problem's condition number (any pair: about 1/(1 - e^2)^2 ulp from f = 0.75 on); with a
+  // parallel within 0.01 degrees of a pole (cosine < 2e-4) already from f > 0.1 on (1e6 ulp at f = 0.5)
+  if (c.f >= 0.5 || (c.f > 0.1 && std::fmin(c1, c2) < 2e-4)) t += " [class:oblate-init-accuracy]";
+  return t;
+}
+// classes that make the kernel models pointless to run (Init itself is inaccurate): everything but the two classes that concern Reverse only
+static bool init_class(const Cfg& c) { std::string t = finding_class(c); size_t i = t.find("[class:"); while (i != std::string::npos) { if (t.compare(i, 29, "[class:tauf-prolate-stop-rule") != 0 && t.compare(i, 25, "[class:lcc-prolate-dsinh]") != 0) return true; i = t.find("[class:", i + 1); } return false; }
+static std::string& cur_tag() { static std::string t; return t; }
+static void badt(const std::string& rel, const std::string& details) { gv::bad(rel, details + cur_tag()); }
 
 static LD Mrad(const Cfg& c, double lat) { LD e2 = (LD)c.f * (2 - (LD)c.f), s = sinl((LD)lat * M_PIl / 180), w = 1 - e2 * s * s; return (LD)c.a * (1 - e2) / (w * sqrtl(w)); }
 static LD Ncos(const Cfg& c, double lat) { LD e2 = (LD)c.f * (2 - (LD)c.f), s = sinl((LD)lat * M_PIl / 180), w = 1 - e2 * s * s; return (LD)c.a / sqrtl(w) * cosl((LD)lat * M_PIl / 180); }
@@ -116,44 +240,60 @@ static LD Ncos(const Cfg& c, double lat) { LD e2 = (LD)c.f * (2 - (LD)c.f), s = 
 // relative accuracy to expect of k (and, in radians, of gamma) at a latitude: "consistent with 10 nm" means 10 nm over
 // the distance from the apex of the cone (k and gamma are ratios / directions of that radius vector)
 static double krel_at(const c11::Proj& P, const Cfg& c, double lat) {
-  c11::SC p = c11::sc_deg(lat); if (c.cls == 0 && P.n == 0) return 1e-12;
-  if (P.cyl || P.n == 0) return 1e-12;
-  Q u = P.unit_scale(p); if (!c11::fin(u) || u <= 0) return 1e-12;
+  c11::SC p = c11::sc_deg(lat); const double kp = kappa(c.f); if (c.cls == 0 && P.n == 0) return 1e-12 * kp;
+  if (P.cyl || P.n == 0) return 1e-12 * kp;
+  Q u = P.unit_scale(p); if (!c11::fin(u) || u <= 0) return 1e-12 * kp;
   double rc = std::fabs(c11::dbl(P.kap * u * P.E.a * P.E.m(p) / P.n)) / (c.cls == 2 ? c11::dbl(P.kap * P.kap) : 1.0);
   double kk = c11::dbl(P.kap * u);
-  return 1e-12 + 4 * (10e-9 * (c.a / 6378137.0) * std::fmax(1.0, kk) + 1e-14 * c.a) / rc;
+  return kp * (1e-12 + 4 * (10e-9 * (c.a / 6378137.0) * std::fmax(1.0, kk) + 1e-14 * c.a) / rc);
 }
 
 // ---------------------------------------------------------------------------------------------------------------
 // pt: cfg(13) northp lon0 lat lon -- one point through Forward and Reverse with all point-level oracles
 static Reg r_pt("pt", [](const Args& a) {
   Cfg c = parse(a); bool np = std::stoi(a[NCFG]) != 0; double lon0 = unhx(a[NCFG + 1]), lat = unhx(a[NCFG + 2]), lon = unhx(a[NCFG + 3]);
+  cur_tag() = finding_class(c); const double kp = kappa(c.f);
   Obj o; std::string ex = build(c, o); if (!ex.empty()) { emit(ex); return; }
+  cur_k0() = o.k0();
   double x, y, g, k; o.Fwd(np, lon0, lat, lon, x, y, g, k);
   double rlat, rlon, rg, rk; o.Rev(np, lon0, x, y, rlat, rlon, rg, rk);
   emit(hx(x) + " " + hx(y) + " " + hx(g) + " " + hx(k) + " " + hx(rlat) + " " + hx(rlon) + " " + hx(rg) + " " + hx(rk));
+  // 0. the overloads without gamma and k return the same point (bit for bit: they forward to the full versions)
+  { double x2, y2, la2, lo2; o.Fwd2(np, lon0, lat, lon, x2, y2); o.Rev2(np, lon0, x, y, la2, lo2);
+    auto same = [](double u, double v) { return bits(u) == bits(v) || (std::isnan(u) && std::isnan(v)); };
+    if (!(same(x, x2) && same(y, y2))) badt("overload-forward", "Forward without gamma/k gives (" + num(x2) + ", " + num(y2) + "), with them (" + num(x) + ", " + num(y) + ")");
+    if (!(same(rlat, la2) && same(rlon, lo2))) badt("overload-reverse", "Reverse without gamma/k gives (" + num(la2) + ", " + num(lo2) + "), with them (" + num(rlat) + ", " + num(rlon) + ")"); }
   if (!(std::fabs(lat) <= 90 && std::isfinite(lon) && std::isfinite(lon0) && std::fabs(lon) < 1e6 && std::fabs(lon0) < 1e6)) return;
   c11::Proj P = oracle(c); c11::Out w = P.fwd(np, lon0, lat, lon);
   double R = std::hypot(x, y);
   // every point of the sphere has an image (finite or, at a pole that projects to infinity, large): never NaN
   if ((std::isnan(x) || std::isnan(y)) && !(c.cls == 0 && lat * (np ? 1 : -1) == -90)) {
-    bad("forward-nan", "Forward(" + num(lat) + ", " + num(lon) + ") = (" + num(x) + ", " + num(y) + "), k = " + num(k) + "; closed form (" + c11::qstr(w.x) + ", " + c11::qstr(w.y) + ")"); return; }
+    badt("forward-nan", "Forward(" + num(lat) + ", " + num(lon) + ") = (" + num(x) + ", " + num(y) + "), k = " + num(k) + "; closed form (" + c11::qstr(w.x) + ", " + c11::qstr(w.y) + ")"); return; }
   bool edge; Q d = c11::dlon(lon0, lon, edge); (void)d;
   // 1. textbook closed form
   if (w.ok && c11::fin(w.x) && c11::fin(w.y) && fabsq(w.x) < Q(1e30) && fabsq(w.y) < Q(1e30)) {
     double ox = c11::dbl(w.x), oy = c11::dbl(w.y), oR = std::hypot(ox, oy), ok_ = c11::dbl(w.k);
     if (documented_domain(c)) {
-      double tol = tol_plane(c, oR, w.kok ? ok_ : k) + origin_slack(c) * std::fmax(1.0, std::fmin(k, 1e300));   // "true distance": at a pole of a non-polar cone the scale is infinite
+      const Cond cd = cond_pt(c, np, lon0, lat, lon, w);
+      double tol = tol_plane(c, oR, kplane(c, w.kok ? ok_ : k)) + oslack(c, oR, k) + NULP * cd.xy;   // "true distance": at a pole of a non-polar cone the scale is infinite
+      // theta = n lambda (k^2 n lambda for Albers) is formed in binary64: 4 ulp of theta displace the point by rho |theta| 4 eps
+      // (matters only for an Albers cone with k >> 1, whose image winds around the apex many times)
+      if (c.cls != 0 && !P.cyl && !P.polar) { double ya = c11::dbl(c.cls == 1 ? P.kap * P.r0 : P.r0 / P.kap), rho = std::hypot(ox, ya - oy); if (std::isfinite(rho)) tol += 8 * std::numeric_limits<double>::epsilon() * std::fabs(c11::dbl(w.gamma)) * Math::degree() * rho; }
       double dx = (c.cls != 0 && edge) ? c11::dbl(fabsq(Q(x)) - fabsq(w.x)) : c11::dbl(Q(x) - w.x), dy = c11::dbl(Q(y) - w.y);
       if (!(std::fabs(dx) <= tol && std::fabs(dy) <= tol))
-        bad("closed-form-xy", "Forward = (" + num(x) + ", " + num(y) + ") but Snyder's closed form gives (" + c11::qstr(w.x) + ", " + c11::qstr(w.y) + "); |d| = " + num(std::hypot(dx, dy)) + " m, tolerance " + num(tol));
+        badt("closed-form-xy", "Forward = (" + num(x) + ", " + num(y) + ") but Snyder's closed form gives (" + c11::qstr(w.x) + ", " + c11::qstr(w.y) + "); |d| = " + num(std::hypot(dx, dy)) + " m, tolerance " + num(tol) + " (one ulp of every input moves the closed form by " + num(cd.xy) + " m)");
       if (w.kok && std::isfinite(ok_) && ok_ < 1e30) {
         // "errors in the convergence and scale are consistent with 10 nm": relative 10 nm / (distance from the apex of the cone)
         double rc = (P.cyl || P.n == 0) ? INFINITY : std::fabs(ok_ * c.a * c11::dbl(P.E.m(c11::sc_deg(lat)) / P.n)) / (c.cls == 2 ? c11::dbl(P.kap * P.kap) : 1.0);
-        double krel = 1e-12 + 4 * (10e-9 * (c.a / 6378137.0) * std::fmax(1.0, ok_) + 1e-14 * c.a) / rc;   // same absolute budget as the positions
-        if (!(std::fabs(c11::dbl(Q(k) - w.k)) <= krel * ok_)) bad("closed-form-k", "scale " + num(k) + " vs closed form " + c11::qstr(w.k) + " (relative tolerance " + num(krel) + ")");
+        double krel = kp * (1e-12 + 4 * (10e-9 * (c.a / 6378137.0) * std::fmax(1.0, ok_) + 1e-14 * c.a) / rc);   // same absolute budget as the positions
+        krel += NULP * cd.k / ok_;
+        // LCC: k = k0 (m0/m) (t/t0)^n, so the documented error of the cone constant sin(lat0) enters as |ln(t/t0)| times it
+        if (c.cls == 1 && !P.cyl && !P.polar) { double lt = c11::dbl(fabsq(logq(P.E.t(c11::sc_deg(lat)) / P.E.t(P.p0)))); if (std::isfinite(lt)) krel += origin_slack(c) / (c.a * mfac(c.f)) * lt; }
+        if (!(std::fabs(c11::dbl(Q(k) - w.k)) <= krel * ok_)) badt("closed-form-k", "scale " + num(k) + " vs closed form " + c11::qstr(w.k) + " (relative tolerance " + num(krel) + ")");
         double og = c11::dbl(w.gamma), dg = c11::dbl(Q(g) - w.gamma); if (edge || std::fabs(og) == 180) dg = std::fabs(std::fabs(g) - std::fabs(og));
-        if (!(std::fabs(dg) <= 1e-12 * std::fmax(1.0, std::fabs(og)) + krel / Math::degree())) bad("closed-form-gamma", "convergence " + num(g) + " vs closed form " + c11::qstr(w.gamma));
+        // the cone constant sin(lat0) carries the documented error of the origin: gamma = n lambda (k1^2 n lambda for Albers)
+        double dgo = origin_slack(c) / (c.a * mfac(c.f)) * std::fabs(c11::dbl(d)) * (c.cls == 2 ? c11::dbl(P.kap * P.kap) : 1.0);
+        if (!(std::fabs(dg) <= 1e-12 * kp * std::fmax(1.0, std::fabs(og)) + krel / Math::degree() + dgo + NULP * cd.g)) badt("closed-form-gamma", "convergence " + num(g) + " vs closed form " + c11::qstr(w.gamma));
       }
     }
   }
@@ -166,32 +306,37 @@ static Reg r_pt("pt", [](const Args& a) {
     // "about 10 nm": on the ellipsoid, or in the plane (where a scale far from 1 compresses one direction: Albers
     // north-south scale is 1/k, so near a pole with k >> 1 a sub-nanometre plane error is many nanometres of latitude)
     LD kew = k, kns = c.cls == 2 ? 1 / (LD)k : (LD)k;
-    double dist = (double)hypotl(dN, dE), tol = tol_ground(c, R, k), distp = (double)hypotl(dN * kns, dE * kew), tolp = tol_plane(c, R, 1.0);
-    if (!(dist <= tol || distp <= tolp)) bad("reverse-forward", "Reverse(Forward(" + num(lat) + ", " + num(lon) + ")) = (" + num(rlat) + ", " + num(rlon) + "), off by " + num(dist) + " m on the ground (" + num(distp) + " m in the plane), tolerance " + num(tol) + " (" + num(tolp) + ")");
+    double dist = (double)hypotl(dN, dE), tol = tol_ground(c, R, k), distp = (double)hypotl(dN * kns, dE * kew), tolp = tol_plane(c, R, c.cls == 2 ? kplane(c, 1.0) : o.k0());   // the plane is a k0 (Albers: k0 or 1/k0) times enlarged copy of the ground
+    if (!(dist <= tol || distp <= tolp)) badt("reverse-forward", "Reverse(Forward(" + num(lat) + ", " + num(lon) + ")) = (" + num(rlat) + ", " + num(rlon) + "), off by " + num(dist) + " m on the ground (" + num(distp) + " m in the plane), tolerance " + num(tol) + " (" + num(tolp) + ")");
     if (std::cos(lat * Math::degree()) > 1e-3 && R < 1e3 * c.a) {
       // k ~ 1/cos(lat): a latitude error within the closure tolerance changes it by tan(lat) * dlat
-      double tk = 1e-9 + std::fabs(std::tan(lat * Math::degree())) * tol / c.a;
-      if (!(std::fabs(rk - k) <= tk * k)) bad("reverse-forward-k", "k from Reverse " + num(rk) + " vs Forward " + num(k));
-      double dg = std::fabs(Math::AngDiff(g, rg)); if (!(dg <= 1e-9)) bad("reverse-forward-gamma", "gamma from Reverse " + num(rg) + " vs Forward " + num(g));
+      double tk = 1e-9 * kp + std::fabs(std::tan(lat * Math::degree())) * tol / (c.a / mfac(c.f));
+      if (!(std::fabs(rk - k) <= tk * k)) badt("reverse-forward-k", "k from Reverse " + num(rk) + " vs Forward " + num(k));
+      double dg = std::fabs(Math::AngDiff(g, rg)); if (!(dg <= 1e-9 * kp * std::fmax(1.0, std::fabs(g)))) badt("reverse-forward-gamma", "gamma from Reverse " + num(rg) + " vs Forward " + num(g));
     }
-    if (!(std::fabs(rlon) <= 180)) bad("reverse-lon-range", "lon = " + num(rlon));
+    if (!(std::fabs(rlon) <= 180)) badt("reverse-lon-range", "lon = " + num(rlon));
   }
   // 3. Forward(Reverse) = identity in the plane, on a displaced point of the image
   if (std::fabs(lat) < 89.9 && R < 100 * c.a && (c.cls == 0 || (std::fabs(g) < 150 && std::fabs(c11::dbl(d)) < 150))) {
     double x2 = x + 1234.5 * (c.a / 6378137.0), y2 = y - 777.25 * (c.a / 6378137.0), la, lo, gg, kk; o.Rev(np, lon0, x2, y2, la, lo, gg, kk);
     // the displaced point must lie inside the image: the cone covers the sector |theta| < 180 n (k0^2 n for Albers)
     double nn = c.cls == 0 ? 1.0 : std::fabs(std::sin(o.lat0() * Math::degree())) * (c.cls == 2 ? o.k0() * o.k0() : 1.0);
-    if (std::fabs(la) < 89.99 && std::isfinite(kk) && (nn == 0 || std::fabs(gg) < 170 * nn)) {
+    // (for a cylinder, nn = 0, the image is the strip |lon - lon0| < 180: with a small central scale the displacement can leave it)
+    if (std::fabs(la) < 89.99 && std::isfinite(kk) && (nn == 0 || std::fabs(gg) < 170 * nn) && (c.cls == 0 || nn != 0 || [&] { double xw, yw, gw, kw; o.Fwd(np, lon0, lat, lon0 + 170, xw, yw, gw, kw); return std::fabs(x2) < std::fabs(xw); }())) {
       double x3, y3, g3, k3; o.Fwd(np, lon0, la, lo, x3, y3, g3, k3);
       double dist = std::hypot(x3 - x2, y3 - y2), tol = tol_plane(c, std::hypot(x2, y2), std::fmax(kk, 1 / kk));
       // Reverse returns lat, lon rounded to binary64: half an ulp of 90 or 180 degrees on the ground
-      tol += (ulp(90.0) * Math::degree() * c.a * 2) * std::fmax(kk, 1 / kk);
-      if (!(dist <= tol)) bad("forward-reverse", "Forward(Reverse(" + num(x2) + ", " + num(y2) + ")) misses by " + num(dist) + " m, tolerance " + num(tol));
+      tol += (ulp(90.0) * Math::degree() * c.a * mfac(c.f) * 2) * std::fmax(kk, 1 / kk);
+      if (!(dist <= tol)) badt("forward-reverse", "Forward(Reverse(" + num(x2) + ", " + num(y2) + ")) misses by " + num(dist) + " m, tolerance " + num(tol));
     }
   }
   // 4. local behaviour by differencing the implementation (Richardson, steps h and 2h, in long double):
   //    conformal: d/dphi = M k (-sin g, cos g), d/dlam = N cos(phi) k (cos g, sin g); Albers: north-south 1/k
-  if (std::fabs(lat) <= 85 && R < 30 * c.a && k < 1e3 && k > 1e-3 && !(c.cls != 0 && std::fabs(c11::dbl(d)) > 179)) {
+  // (the a-priori error h^4 f^(5)/30 of the differencing grows like the inverse fourth power of the distance to the nearest
+  //  singularity of the mapping in latitude, b/a for a flat ellipsoid: tolerance 1e-7 kappa^2, not used beyond 1e-3; an Albers
+  //  image that winds many times around the apex is not differenced in longitude with a fixed step)
+  const double rtol = 1e-7 * kp * kp;
+  if (std::fabs(lat) <= 85 && R < 30 * c.a && k < 1e3 && k > 1e-3 && rtol <= 1e-3 && std::fabs(g) < 1e3 && !(c.cls != 0 && std::fabs(c11::dbl(d)) > 179)) {
     const double h = 0.02; LD D[2][2];
     for (int dir = 0; dir < 2; ++dir) {
       LD v[4][2]; int j = 0;
@@ -203,14 +348,16 @@ static Reg r_pt("pt", [](const Args& a) {
     LD kns = c.cls == 2 ? 1 / (LD)k : (LD)k, kew = k;
     LD e1 = hypotl(D[0][0] / M + kns * sg, D[0][1] / M - kns * cg) / kns, e2 = hypotl(D[1][0] / Nc - kew * cg, D[1][1] / Nc - kew * sg) / kew;
     const char* nm = c.cls == 2 ? "equal-area" : "conformality";
-    if (!(e1 <= 1e-7)) bad(std::string(nm) + "-meridian", "north-south derivative of Forward differs from (" + std::string(c.cls == 2 ? "1/k" : "k") + ", gamma) returned: relative " + num((double)e1));
-    if (!(e2 <= 1e-7)) bad(std::string(nm) + "-parallel", "east-west derivative of Forward differs from (k, gamma) returned: relative " + num((double)e2));
+    if (!(e1 <= rtol)) badt(std::string(nm) + "-meridian", "north-south derivative of Forward differs from (" + std::string(c.cls == 2 ? "1/k" : "k") + ", gamma) returned: relative " + num((double)e1));
+    // the image turns by theta = n lambda (k^2 n lambda for Albers): differencing sin/cos(theta) with the step d theta has the relative error (d theta)^4/30
+    const double dth = (c.cls == 0 ? 1.0 : std::fabs(c11::dbl(c.cls == 2 ? P.kap * P.kap * P.n : P.n))) * h * Math::degree(), rtol2 = rtol + 4 * dth * dth * dth * dth / 30;
+    if (!(e2 <= rtol2)) badt(std::string(nm) + "-parallel", "east-west derivative of Forward differs from (k, gamma) returned: relative " + num((double)e2));
   }
   // 5. longitude wrap: lon0 and lon shifted by multiples of 360
   if (c.cls != 0) {
     double x4, y4, g4, k4; o.Fwd(np, lon0 + 360, lat, lon - 720, x4, y4, g4, k4);
     bool exact = (lon0 + 360) - 360 == lon0 && (lon - 720) + 720 == lon && !edge;
-    if (exact && !(std::hypot(x4 - x, y4 - y) <= tol_plane(c, R, k) && std::fabs(g4 - g) <= 1e-12 * std::fmax(1.0, std::fabs(g)))) bad("lon-wrap", "Forward(lon0+360, lat, lon-720) differs by " + num(std::hypot(x4 - x, y4 - y)) + " m");
+    if (exact && !(std::hypot(x4 - x, y4 - y) <= tol_plane(c, R, k) && std::fabs(g4 - g) <= 1e-12 * kp * std::fmax(1.0, std::fabs(g)))) badt("lon-wrap", "Forward(lon0+360, lat, lon-720) differs by " + num(std::hypot(x4 - x, y4 - y)) + " m");
   }
 });
 
@@ -218,32 +365,37 @@ static Reg r_pt("pt", [](const Args& a) {
 // cfgprops: cfg(13) t1 t2 t3 (three test latitudes) lon -- configuration-level oracles
 static Reg r_cfg("cfgprops", [](const Args& a) {
   Cfg c = parse(a); double tl[3] = {unhx(a[NCFG]), unhx(a[NCFG + 1]), unhx(a[NCFG + 2])}, lon = unhx(a[NCFG + 3]);
+  cur_tag() = finding_class(c); const double kp = kappa(c.f);
   Obj o; std::string ex = build(c, o); if (!ex.empty()) { emit(ex); return; }
+  cur_k0() = o.k0();
   emit(hx(o.lat0()) + " " + hx(o.k0()));
+  // inspectors: the constructor arguments come back unchanged
+  { double ea = c.cls == 0 ? o.ps->EquatorialRadius() : c.cls == 1 ? o.lcc->EquatorialRadius() : o.alb->EquatorialRadius(), ef = c.cls == 0 ? o.ps->Flattening() : c.cls == 1 ? o.lcc->Flattening() : o.alb->Flattening();
+    if (!(ea == c.a && ef == c.f)) badt("inspectors", "EquatorialRadius() = " + num(ea) + ", Flattening() = " + num(ef) + " for the constructor arguments " + num(c.a) + ", " + num(c.f)); }
   double l1, l2; stdlats(c, l1, l2);
   c11::Proj P = oracle(c);
   auto same_proj = [&](const Obj& p, const Obj& q, const char* rel, const std::string& what, double extra = 0) {
     for (int i = 0; i < 3; ++i) {
       double x, y, g, k, x2, y2, g2, k2; p.Fwd(true, 3, tl[i], lon, x, y, g, k); q.Fwd(true, 3, tl[i], lon, x2, y2, g2, k2);
       if (!(std::isfinite(x) && std::isfinite(y))) continue;
-      double dd = std::hypot(x - x2, y - y2), tol = 2 * tol_plane(c, std::hypot(x, y), k) + extra * (std::hypot(x, y) + c.a) + 2 * origin_slack(c) * std::fmax(1.0, k);
+      double dd = std::hypot(x - x2, y - y2), tol = 2 * tol_plane(c, std::hypot(x, y), kplane(c, k)) + extra * (std::hypot(x, y) + c.a) + 2 * oslack(c, std::hypot(x, y), k);
       bool kcmp = std::fabs(tl[i]) < 90;   // at a pole of a non-azimuthal cone the scale is infinite (the returned value is arbitrary)
-      if (!(dd <= tol && (!kcmp || std::fabs(k - k2) <= (1e-12 + extra) * std::fabs(k)))) { bad(rel, what + ": at lat " + num(tl[i]) + " positions differ by " + num(dd) + " m (tolerance " + num(tol) + "), k " + num(k) + " vs " + num(k2)); return; }
+      if (!(dd <= tol && (!kcmp || std::fabs(k - k2) <= (1e-12 * kp + extra) * std::fabs(k)))) { badt(rel, what + ": at lat " + num(tl[i]) + " positions differ by " + num(dd) + " m (tolerance " + num(tol) + "), k " + num(k) + " vs " + num(k2)); return; }
     }
   };
   // prescribed scale: on the standard parallels (no SetScale) or at the SetScale latitude
   if (c.cls != 0 && !c.ss && documented_domain(c)) {
     for (double l : {l1, l2}) if (c.kind != 3 && std::cos(l * Math::degree()) > 1e-3) {
       double x, y, g, k; o.Fwd(true, 0, l, 0, x, y, g, k);
-      if (!(std::fabs(k - c.k1) <= krel_at(P, c, l) * c.k1)) bad("scale-on-standard-parallel", "k(" + num(l) + ") = " + num(k) + ", prescribed " + num(c.k1));
+      if (!(std::fabs(k - c.k1) <= krel_at(P, c, l) * c.k1)) badt("scale-on-standard-parallel", "k(" + num(l) + ") = " + num(k) + ", prescribed " + num(c.k1));
     }
   }
   if (c.ss) {
     double x, y, g, k; o.Fwd(true, 0, c.sslat, 0, x, y, g, k);
-    if (!(std::fabs(k - c.ssk) <= krel_at(P, c, c.sslat) * c.ssk)) bad("setscale-scale", "after SetScale(" + num(c.sslat) + ", " + num(c.ssk) + ") the scale there is " + num(k));
+    if (!(std::fabs(k - c.ssk) <= krel_at(P, c, c.sslat) * c.ssk)) badt("setscale-scale", "after SetScale(" + num(c.sslat) + ", " + num(c.ssk) + ") the scale there is " + num(k));
   }
   if (c.cls == 0) {
-    if (!c.ss && !(o.k0() == c.k1)) bad("central-scale", "CentralScale");
+    if (!c.ss && !(o.k0() == c.k1)) badt("central-scale", "CentralScale");
     // SetScale(90, k) is the constructor with k0 = k
     Cfg c2 = c; c2.ss = 1; c2.sslat = 90; c2.ssk = c.k1 * 0.75; Cfg c3 = c; c3.ss = 0; c3.k1 = c.k1 * 0.75; Obj o2, o3;
     if (build(c2, o2).empty() && build(c3, o3).empty()) same_proj(o2, o3, "setscale-vs-constructor", "SetScale(90, k) vs constructor(k)");
@@ -252,15 +404,18 @@ static Reg r_cfg("cfgprops", [](const Args& a) {
   // origin: between the parallels, equals stdlat for one parallel, maps to (0, 0) with the central scale; equals the oracle's
   {
     double lat0 = o.lat0(), lo = std::fmin(l1, l2), hi = std::fmax(l1, l2);
-    if (!(lat0 >= lo - 1e-9 && lat0 <= hi + 1e-9)) bad("origin-latitude", "OriginLatitude " + num(lat0) + " not between the standard parallels " + num(l1) + ", " + num(l2));
-    if (l1 == l2 && c.kind != 3 && !(std::fabs(lat0 - l1) <= 4 * ulp(90.0))) bad("origin-latitude", "one standard parallel " + num(l1) + " but OriginLatitude " + num(lat0));
+    if (!(lat0 >= lo - 1e-9 && lat0 <= hi + 1e-9)) badt("origin-latitude", "OriginLatitude " + num(lat0) + " not between the standard parallels " + num(l1) + ", " + num(l2));
+    if (l1 == l2 && c.kind != 3 && !(std::fabs(lat0 - l1) <= 4 * ulp(90.0))) badt("origin-latitude", "one standard parallel " + num(l1) + " but OriginLatitude " + num(lat0));
     if (documented_domain(c)) {
       double ol = c11::dbl(atan2q(P.p0.s, P.p0.c) * 180 / c11::PIq);
-      if (!P.polar && !(std::fabs(lat0 - ol) <= 4 * 4.5e-14 * gflat(c) + 4 * ulp(lat0))) bad("origin-latitude", "OriginLatitude " + num(lat0) + " vs latitude of minimum scale " + num(ol));
+      if (!P.polar && !(std::fabs(lat0 - ol) <= 4 * 4.5e-14 * gflat(c) + 4 * ulp(lat0) + NULP * cond_lat0(c))) badt("origin-latitude", "OriginLatitude " + num(lat0) + " vs latitude of minimum scale " + num(ol));
+      // the class of the accuracy finding F87 is bounded in size (Albers: its worst documented loss is 1e-6 degrees at f = 0.99): an Albers origin off
+      // by more than 1e-4 degrees is a wrong root of the Newton iteration in Init (the repaired cycle F86), reported under its own relation, without class
+      if (c.cls == 2 && std::fabs(lat0 - ol) > 1e-4 + NULP * cond_lat0(c)) gv::bad("origin-latitude-gross", "OriginLatitude " + num(lat0) + " vs latitude of minimum scale " + num(ol));
       if (std::fabs(lat0) < 90) {
         double x, y, g, k; o.Fwd(true, 7, lat0, 7, x, y, g, k);
-        if (!(std::hypot(x, y) <= tol_plane(c, 0, std::fmax(k, 1 / k)))) bad("origin-maps-to-zero", "Forward(lat0) = (" + num(x) + ", " + num(y) + ")");
-        if (!(std::fabs(k - o.k0()) <= 1e-12 * k)) bad("central-scale", "k(lat0) = " + num(k) + " but CentralScale = " + num(o.k0()));
+        if (!(std::hypot(x, y) <= tol_plane(c, 0, std::fmax(k, 1 / k)))) badt("origin-maps-to-zero", "Forward(lat0) = (" + num(x) + ", " + num(y) + ")");
+        if (!(std::fabs(k - o.k0()) <= 1e-12 * kp * k)) badt("central-scale", "k(lat0) = " + num(k) + " but CentralScale = " + num(o.k0()));
       }
     }
   }
@@ -269,18 +424,18 @@ static Reg r_cfg("cfgprops", [](const Args& a) {
     if (c.kind == 2) {
       double s1, c1, s2, c2_; Math::sincosd(l1, s1, c1); Math::sincosd(l2, s2, c2_);
       Cfg c3 = c; c3.kind = 3; c3.p[0] = s1; c3.p[1] = c1; c3.p[2] = s2; c3.p[3] = c2_; Obj o3;
-      std::string e3 = build(c3, o3); if (!e3.empty()) bad("constructor-equivalence", "degree constructor accepts (" + num(l1) + ", " + num(l2) + ") but the sin/cos constructor throws");
+      std::string e3 = build(c3, o3); if (!e3.empty()) badt("constructor-equivalence", "degree constructor accepts (" + num(l1) + ", " + num(l2) + ") but the sin/cos constructor throws");
       else same_proj(o, o3, "constructor-equivalence", "two-parallel vs sin/cos constructor");
     }
     if (l1 == l2 && c.kind != 3) {
       Cfg c1 = c; c1.kind = c.kind == 1 ? 2 : 1; c1.p[0] = l1; c1.p[1] = c.kind == 1 ? l1 : 0; Obj o1;
-      std::string e1 = build(c1, o1); if (!e1.empty()) bad("constructor-equivalence", "one- and two-parallel constructors disagree on accepting " + num(l1));
+      std::string e1 = build(c1, o1); if (!e1.empty()) badt("constructor-equivalence", "one- and two-parallel constructors disagree on accepting " + num(l1));
       else same_proj(o, o1, "constructor-equivalence", "one-parallel vs two-parallel constructor");
     }
     // exchanging the parallels gives the same projection
     if (c.kind != 1) {
       Cfg cs = c; if (c.kind == 2) std::swap(cs.p[0], cs.p[1]); else { std::swap(cs.p[0], cs.p[2]); std::swap(cs.p[1], cs.p[3]); } Obj os;
-      std::string es = build(cs, os); if (!es.empty()) bad("constructor-equivalence", "exchanging the standard parallels is rejected");
+      std::string es = build(cs, os); if (!es.empty()) badt("constructor-equivalence", "exchanging the standard parallels is rejected");
       else if (documented_domain(c)) same_proj(o, os, "parallel-order", "standard parallels exchanged");
     }
   }
@@ -293,27 +448,27 @@ static Reg r_cfg("cfgprops", [](const Args& a) {
   // a polar cone is judged by setscale-polar-hemisphere)
   if (!(c.ss && std::fabs(c.sslat) == 90)) {
     Cfg cm = c; if (c.kind == 3) { cm.p[0] = -c.p[0]; cm.p[2] = -c.p[2]; } else { cm.p[0] = -c.p[0]; cm.p[1] = -c.p[1]; } cm.sslat = -c.sslat; Obj om;
-    std::string em = build(cm, om); if (!em.empty()) bad("mirror", "mirrored configuration rejected");
+    std::string em = build(cm, om); if (!em.empty()) badt("mirror", "mirrored configuration rejected");
     else for (int i = 0; i < 3; ++i) {
       double x, y, g, k, x2, y2, g2, k2; o.Fwd(true, 0, tl[i], lon, x, y, g, k); om.Fwd(true, 0, -tl[i], lon, x2, y2, g2, k2);
       if (!(std::isfinite(x) && std::isfinite(y)) || !documented_domain(c)) continue;
-      double dd = std::hypot(x - x2, y + y2), tol = 2 * tol_plane(c, std::hypot(x, y), k) + 2 * origin_slack(c) * std::fmax(1.0, k);
-      if (!(dd <= tol && std::fabs(g + g2) <= 1e-12 * std::fmax(1.0, std::fabs(g)) && (std::fabs(tl[i]) == 90 || std::fabs(k - k2) <= 1e-12 * std::fabs(k)))) { bad("mirror", "Forward(-cone)(-lat) is not the mirror image of Forward(cone)(lat) at lat " + num(tl[i]) + ": off by " + num(dd) + " m"); break; }
+      double dd = std::hypot(x - x2, y + y2), tol = 2 * tol_plane(c, std::hypot(x, y), kplane(c, k)) + 2 * oslack(c, std::hypot(x, y), k);
+      if (!(dd <= tol && std::fabs(g + g2) <= 1e-12 * kp * std::fmax(1.0, std::fabs(g)) && (std::fabs(tl[i]) == 90 || std::fabs(k - k2) <= 1e-12 * kp * std::fabs(k)))) { badt("mirror", "Forward(-cone)(-lat) is not the mirror image of Forward(cone)(lat) at lat " + num(tl[i]) + ": off by " + num(dd) + " m"); break; }
       double la, lo, gg, kk; om.Rev(true, 0, x, -y, la, lo, gg, kk); double la1, lo1, gg1, kk1; o.Rev(true, 0, x, y, la1, lo1, gg1, kk1);
-      if (std::fabs(tl[i]) < 89.9 && !(std::fabs(la + la1) <= 1e-9)) { bad("mirror", "Reverse(-cone)(x, -y) latitude " + num(la) + " vs " + num(la1)); break; }
+      if (std::fabs(tl[i]) < 89.9 && !(std::fabs(la + la1) <= 1e-9 * kp)) { badt("mirror", "Reverse(-cone)(x, -y) latitude " + num(la) + " vs " + num(la1)); break; }
     }
   }
   // SetScale at a pole: accepted exactly at the pole where the (polar) cone has its apex
   if (c.cls == 1 && P.polar && !c.ss) {
     for (double pl : {90.0, -90.0}) {
       Cfg c2 = c; c2.ss = 1; c2.sslat = pl; c2.ssk = 0.9996; Obj o2; bool acc = build(c2, o2).empty(), want = (pl > 0) == (P.hemi > 0);
-      if (acc != want) bad("setscale-polar-hemisphere", "polar cone with apex at " + num(90.0 * P.hemi) + ": SetScale(" + num(pl) + ", k) is " + (acc ? "accepted" : "rejected"));
+      if (acc != want) badt("setscale-polar-hemisphere", "polar cone with apex at " + num(90.0 * P.hemi) + ": SetScale(" + num(pl) + ", k) is " + (acc ? "accepted" : "rejected"));
     }
   }
   // NaN coordinates give NaN (no clamping to a pole)
   {
-    double la, lo, gg, kk; o.Rev(true, 0, std::nan(""), 1e5, la, lo, gg, kk); if (!std::isnan(la)) bad("nan-in-nan-out", "Reverse(NaN, y) gives lat " + num(la));
-    o.Rev(true, 0, 1e5, std::nan(""), la, lo, gg, kk); if (!std::isnan(la)) bad("nan-in-nan-out", "Reverse(x, NaN) gives lat " + num(la));
+    double la, lo, gg, kk; o.Rev(true, 0, std::nan(""), 1e5, la, lo, gg, kk); if (!std::isnan(la)) badt("nan-in-nan-out", "Reverse(NaN, y) gives lat " + num(la));
+    o.Rev(true, 0, 1e5, std::nan(""), la, lo, gg, kk); if (!std::isnan(la)) badt("nan-in-nan-out", "Reverse(x, NaN) gives lat " + num(la));
   }
 });
 
@@ -331,10 +486,130 @@ static Reg r_ctor("ctor", [](const Args& a) {
   };
   int a2 = acc(2), a3 = acc(3), a1 = (l1 == l2 || (std::isnan(l1) && std::isnan(l2))) ? acc(1) : -2;
   emit(std::to_string(a1) + " " + std::to_string(a2) + " " + std::to_string(a3));
-  if (a2 < 0 || a3 < 0 || a1 == -1) bad("constructor-exception-type", "a constructor threw something other than GeographicErr");
+  if (a2 < 0 || a3 < 0 || a1 == -1) badt("constructor-exception-type", "a constructor threw something other than GeographicErr");
   bool latsok = std::fabs(l1) <= 90 && std::fabs(l2) <= 90;   // sincosd of an out-of-range latitude is still a valid sine/cosine pair
-  if (latsok && a2 != a3) bad("constructor-domain", "degree constructor " + std::string(a2 ? "accepts" : "rejects") + " (" + num(l1) + ", " + num(l2) + ") but the sin/cos constructor " + (a3 ? "accepts" : "rejects") + " the same parallels");
-  if (a1 >= 0 && a1 != a2) bad("constructor-domain", "one-parallel constructor " + std::string(a1 ? "accepts" : "rejects") + " " + num(l1) + " but the two-parallel constructor " + (a2 ? "accepts" : "rejects") + " it twice");
+  if (latsok && a2 != a3) badt("constructor-domain", "degree constructor " + std::string(a2 ? "accepts" : "rejects") + " (" + num(l1) + ", " + num(l2) + ") but the sin/cos constructor " + (a3 ? "accepts" : "rejects") + " the same parallels");
+  if (a1 >= 0 && a1 != a2) badt("constructor-domain", "one-parallel constructor " + std::string(a1 ? "accepts" : "rejects") + " " + num(l1) + " but the two-parallel constructor " + (a2 ? "accepts" : "rejects") + " it twice");
+});
+
+// ---------------------------------------------------------------------------------------------------------------
+// statics: idx northp lon0 lat lon -- the library's static instances UPS(), Mercator(), CylindricalEqualArea(),
+// AzimuthalEqualAreaNorth/South() against a freshly constructed object with the documented parameters (written out
+// here as literals), bit for bit, with both overloads; the closed-form oracle judges the equivalent configuration in `pt`
+static Cfg static_cfg(int idx) {
+  Cfg c; c.a = 6378137.0; c.f = 1 / 298.257223563; c.ss = 0; c.sslat = 0; c.ssk = 1; c.k1 = 1; c.kind = 1; c.p[0] = c.p[1] = c.p[2] = c.p[3] = 0;
+  switch (idx) {
+  case 0: c.cls = 0; c.p[0] = 90; c.k1 = 0.994; break;                                        // UPS: WGS84, k0 = 0.994
+  case 1: c.cls = 1; c.p[0] = 0; break;                                                        // Mercator: stdlat 0, k0 = 1
+  case 2: c.cls = 2; c.p[0] = 0; break;                                                        // cylindrical equal area: stdlat 0
+  case 3: c.cls = 2; c.p[0] = 90; break;                                                       // azimuthal equal area, north
+  default: c.cls = 2; c.p[0] = -90; break;                                                     // azimuthal equal area, south
+  }
+  return c;
+}
+static Reg r_statics("statics", [](const Args& a) {
+  int idx = std::stoi(a[0]); bool np = std::stoi(a[1]) != 0; double lon0 = unhx(a[2]), lat = unhx(a[3]), lon = unhx(a[4]);
+  cur_tag() = ""; Cfg c = static_cfg(idx); Obj o; if (!build(c, o).empty()) { emit("!E"); return; }
+  static const char* names[] = {"PolarStereographic::UPS()", "LambertConformalConic::Mercator()", "AlbersEqualArea::CylindricalEqualArea()", "AlbersEqualArea::AzimuthalEqualAreaNorth()", "AlbersEqualArea::AzimuthalEqualAreaSouth()"};
+  const PolarStereographic* ps = nullptr; const LambertConformalConic* lc = nullptr; const AlbersEqualArea* al = nullptr;
+  switch (idx) { case 0: ps = &PolarStereographic::UPS(); break; case 1: lc = &LambertConformalConic::Mercator(); break; case 2: al = &AlbersEqualArea::CylindricalEqualArea(); break;
+                 case 3: al = &AlbersEqualArea::AzimuthalEqualAreaNorth(); break; default: idx = 4; al = &AlbersEqualArea::AzimuthalEqualAreaSouth(); break; }
+  double x, y, g, k, rla, rlo, rg, rk, x2, y2, la2, lo2;
+  if (ps) { ps->Forward(np, lat, lon, x, y, g, k); ps->Reverse(np, x, y, rla, rlo, rg, rk); ps->Forward(np, lat, lon, x2, y2); ps->Reverse(np, x, y, la2, lo2); }
+  else if (lc) { lc->Forward(lon0, lat, lon, x, y, g, k); lc->Reverse(lon0, x, y, rla, rlo, rg, rk); lc->Forward(lon0, lat, lon, x2, y2); lc->Reverse(lon0, x, y, la2, lo2); }
+  else { al->Forward(lon0, lat, lon, x, y, g, k); al->Reverse(lon0, x, y, rla, rlo, rg, rk); al->Forward(lon0, lat, lon, x2, y2); al->Reverse(lon0, x, y, la2, lo2); }
+  emit(hx(x) + " " + hx(y) + " " + hx(g) + " " + hx(k) + " " + hx(rla) + " " + hx(rlo) + " " + hx(rg) + " " + hx(rk));
+  double fx, fy, fg, fk, fla, flo, frg, frk; o.Fwd(np, lon0, lat, lon, fx, fy, fg, fk); o.Rev(np, lon0, fx, fy, fla, flo, frg, frk);
+  auto same = [](double u, double v) { return bits(u) == bits(v) || (std::isnan(u) && std::isnan(v)); };
+  std::string nm = names[idx];
+  if (!(same(x, fx) && same(y, fy) && same(g, fg) && same(k, fk)))
+    badt("static-instance", nm + ".Forward(" + num(lat) + ", " + num(lon) + ") = (" + num(x) + ", " + num(y) + ", " + num(g) + ", " + num(k) + ") but an object constructed with the documented parameters gives (" + num(fx) + ", " + num(fy) + ", " + num(fg) + ", " + num(fk) + ")");
+  if (!(same(rla, fla) && same(rlo, flo) && same(rg, frg) && same(rk, frk)))
+    badt("static-instance", nm + ".Reverse(" + num(x) + ", " + num(y) + ") = (" + num(rla) + ", " + num(rlo) + ") but an object constructed with the documented parameters gives (" + num(fla) + ", " + num(flo) + ")");
+  if (!(same(x, x2) && same(y, y2) && same(rla, la2) && same(rlo, lo2))) badt("static-instance", nm + ": the overloads without gamma/k differ from the full ones");
+  double ea = ps ? ps->EquatorialRadius() : lc ? lc->EquatorialRadius() : al->EquatorialRadius(), ef = ps ? ps->Flattening() : lc ? lc->Flattening() : al->Flattening();
+  double k0 = ps ? ps->CentralScale() : lc ? lc->CentralScale() : al->CentralScale(), l0 = ps ? 90 : lc ? lc->OriginLatitude() : al->OriginLatitude();
+  if (!(ea == c.a && ef == c.f && k0 == c.k1 && (ps || l0 == c.p[0])))
+    badt("static-instance", nm + ": a = " + num(ea) + ", f = " + num(ef) + ", CentralScale = " + num(k0) + ", OriginLatitude = " + num(l0) + "; documented " + num(c.a) + ", " + num(c.f) + ", " + num(c.k1) + ", " + num(c.p[0]));
+});
+
+// ---------------------------------------------------------------------------------------------------------------
+// sshist: cfg(13) n (lat k){n} t1 t2 t3 lon -- SetScale called n times in a row on one object.  The projection afterwards is
+// fixed by the last call alone (scale k_n on the parallel lat_n): it must be that of a fresh object with that single call.
+static Reg r_sshist("sshist", [](const Args& a) {
+  Cfg c = parse(a); int n = std::stoi(a[NCFG]); std::vector<std::pair<double, double>> h;
+  for (int i = 0; i < n; ++i) h.push_back({unhx(a[NCFG + 1 + 2 * i]), unhx(a[NCFG + 2 + 2 * i])});
+  size_t q = NCFG + 1 + 2 * n; double tl[3] = {unhx(a[q]), unhx(a[q + 1]), unhx(a[q + 2])}, lon = unhx(a[q + 3]);
+  cur_tag() = finding_class(c); const double kp = kappa(c.f);
+  c.ss = 0; Obj o; std::string ex = build(c, o); if (!ex.empty() || n == 0) { emit("!E"); return; }
+  std::string e2 = guarded([&] { for (auto& s : h) { if (c.cls == 0) o.ps->SetScale(s.first, s.second); else if (c.cls == 1) o.lcc->SetScale(s.first, s.second); else o.alb->SetScale(s.first, s.second); } });
+  if (!e2.empty()) { emit(e2); return; }
+  Cfg cl = c; cl.ss = 1; cl.sslat = h.back().first; cl.ssk = h.back().second; Obj ol; if (!build(cl, ol).empty()) { emit("!E"); return; }
+  emit(hx(o.k0()) + " " + hx(ol.k0()));
+  cur_k0() = ol.k0();
+  c11::Proj P = oracle(cl);
+  // the scale on the last parallel is the last k
+  { double x, y, g, k; o.Fwd(true, 0, cl.sslat, 0, x, y, g, k);
+    double tol = krel_at(P, cl, cl.sslat) + 8 * n * std::numeric_limits<double>::epsilon();
+    if (!(std::fabs(k - cl.ssk) <= tol * cl.ssk)) badt("setscale-history", "after " + std::to_string(n) + " calls of SetScale, the last one (" + num(cl.sslat) + ", " + num(cl.ssk) + "), the scale there is " + num(k)); }
+  if (!(std::fabs(o.k0() - ol.k0()) <= (1e-12 * kp + 8 * n * std::numeric_limits<double>::epsilon()) * ol.k0())) badt("setscale-history", "CentralScale after the history " + num(o.k0()) + ", after the last call alone " + num(ol.k0()));
+  for (int i = 0; i < 3; ++i) {
+    double x, y, g, k, x2, y2, g2, k2; o.Fwd(true, 3, tl[i], lon, x, y, g, k); ol.Fwd(true, 3, tl[i], lon, x2, y2, g2, k2);
+    if (!(std::isfinite(x) && std::isfinite(y) && std::isfinite(x2) && std::isfinite(y2))) continue;
+    double R = std::hypot(x, y), dd = std::hypot(x - x2, y - y2), tol = 2 * tol_plane(cl, R, k) + (1e-12 * kp + 8 * n * std::numeric_limits<double>::epsilon()) * (R + c.a * std::fmax(1.0, k));
+    // an Albers image with k >> 1 winds around the apex: theta = k^2 n lambda carries the relative error of k^2
+    if (c.cls == 2 && std::fabs(g) > 0) { double n0 = std::fabs(std::sin(ol.lat0() * Math::degree())), rho0 = n0 > 0 ? c.a / n0 / ol.k0() : 0;   // distance of the origin from the apex (at most a / (n k))
+      double extra = (1e-12 * kp + 8 * n * std::numeric_limits<double>::epsilon()) * std::fabs(g) * Math::degree() * (R + rho0); if (std::isfinite(extra)) tol += extra; }
+    if (!(dd <= tol && (std::fabs(tl[i]) == 90 || std::fabs(k - k2) <= (1e-12 * kp + 8 * n * std::numeric_limits<double>::epsilon()) * std::fabs(k2)))) {
+      badt("setscale-history", "after " + std::to_string(n) + " calls of SetScale the projection differs from the one after the last call alone: at lat " + num(tl[i]) + " by " + num(dd) + " m (tolerance " + num(tol) + "), k " + num(k) + " vs " + num(k2)); return; }
+  }
+});
+
+// ---------------------------------------------------------------------------------------------------------------
+// conicproj: cls a f lat1 lat2 k1 lon0 reverse longfirst prec u v -- tools/ConicProj (compiled in) on one input line against the
+// classes called directly with the arguments parsed by the same library routines: the printed line must be the
+// Utility::str formatting of what the class returns (exact string equality)
+static std::string g17(double x) { char b[400]; std::snprintf(b, sizeof b, "%.17g", x); if (std::strchr(b, 'e') && std::isfinite(x)) std::snprintf(b, sizeof b, std::fabs(x) < 1 ? "%.30f" : "%.3f", x); return b; }
+static Reg r_conicproj("conicproj", [](const Args& a) {
+  int cls = std::stoi(a[0]); double ea = unhx(a[1]), f = unhx(a[2]), l1 = unhx(a[3]), l2 = unhx(a[4]), k1 = unhx(a[5]), lon0 = unhx(a[6]);
+  bool reverse = std::stoi(a[7]) != 0, longfirst = std::stoi(a[8]) != 0; int prec = std::stoi(a[9]); double u = unhx(a[10]), v = unhx(a[11]);
+  cur_tag() = "";
+  std::vector<std::string> av = {"ConicProj", cls == 1 ? "-c" : "-a", g17(l1), g17(l2), "-l", g17(lon0), "-k", g17(k1), "-e", g17(ea), g17(f), "-p", std::to_string(prec)};
+  if (reverse) av.push_back("-r"); if (longfirst) av.push_back("-w");
+  std::string line = reverse ? g17(u) + " " + g17(v) : (longfirst ? g17(v) + " " + g17(u) : g17(u) + " " + g17(v));   // forward: u = lat, v = lon
+  std::vector<const char*> argv; for (auto& s : av) argv.push_back(s.c_str());
+  std::istringstream in(line + "\n"); std::ostringstream out, err;
+  std::streambuf *oi = std::cin.rdbuf(in.rdbuf()), *oo = std::cout.rdbuf(out.rdbuf()), *oe = std::cerr.rdbuf(err.rdbuf()); std::cin.clear();
+  int rc = -99; std::string ex;
+  try { rc = tool_conicproj::main(int(argv.size()), argv.data()); } catch (const std::exception& e) { ex = typeid(e).name(); } catch (...) { ex = "unknown"; }
+  std::cin.rdbuf(oi); std::cout.rdbuf(oo); std::cerr.rdbuf(oe); std::cin.clear(); std::cout.clear(); std::cerr.clear();
+  std::string got = out.str(); while (!got.empty() && (got.back() == '\n' || got.back() == '\r')) got.pop_back();
+  if (!ex.empty()) { emit("!O"); badt("conicproj-exception-escapes", "exception " + ex + " escaped main"); return; }
+  // what the classes return for the same (parsed) arguments
+  std::string want; int wrc = 0;
+  try {
+    DMS::flag ind; double pl1 = DMS::Decode(g17(l1), ind); if (ind == DMS::LONGITUDE) throw GeographicErr("Bad hemisphere");
+    double pl2 = DMS::Decode(g17(l2), ind); if (ind == DMS::LONGITUDE) throw GeographicErr("Bad hemisphere");
+    double pl0 = DMS::Decode(g17(lon0), ind); if (ind == DMS::LATITUDE) throw GeographicErr("Bad hemisphere"); pl0 = Math::AngNormalize(pl0);
+    double pk = Utility::val<double>(g17(k1)), pa = Utility::val<double>(g17(ea)), pf = Utility::fract<double>(g17(f));
+    int pr = std::min(10 + Math::extra_digits(), std::max(0, prec)); double o1, o2, g, k;
+    const LambertConformalConic LP = cls == 1 ? LambertConformalConic(pa, pf, pl1, pl2, pk) : LambertConformalConic(1, 0, 0, 0, 1);
+    const AlbersEqualArea AP = cls == 2 ? AlbersEqualArea(pa, pf, pl1, pl2, pk) : AlbersEqualArea(1, 0, 0, 0, 1);
+    try {
+      if (reverse) {
+        double x = Utility::val<double>(g17(u)), y = Utility::val<double>(g17(v));
+        if (cls == 1) LP.Reverse(pl0, x, y, o1, o2, g, k); else AP.Reverse(pl0, x, y, o1, o2, g, k);
+        want = Utility::str(longfirst ? o2 : o1, pr + 5) + " " + Utility::str(longfirst ? o1 : o2, pr + 5) + " " + Utility::str(g, pr + 6) + " " + Utility::str(k, pr + 6);
+      } else {
+        double lat, lon; DMS::DecodeLatLon(longfirst ? g17(v) : g17(u), longfirst ? g17(u) : g17(v), lat, lon, longfirst);
+        if (cls == 1) LP.Forward(pl0, lat, lon, o1, o2, g, k); else AP.Forward(pl0, lat, lon, o1, o2, g, k);
+        want = Utility::str(o1, pr) + " " + Utility::str(o2, pr) + " " + Utility::str(g, pr + 6) + " " + Utility::str(k, pr + 6);
+      }
+    } catch (const std::exception& e) { want = std::string("ERROR: ") + e.what(); wrc = 1; }
+  } catch (const std::exception&) { want = ""; wrc = 1; }   // the options themselves are rejected: no output line
+  emit(std::to_string(rc) + " " + hs(got));
+  if (got != want || rc != wrc)
+    badt("conicproj-vs-api", "ConicProj" + join(Args(av.begin() + 1, av.end())) + " on '" + line + "' prints '" + got + "' (exit " + std::to_string(rc) + "); the class called directly gives '" + want + "' (exit " + std::to_string(wrc) + ")");
 });
 
 // ---------------------------------------------------------------------------------------------------------------
@@ -345,7 +620,7 @@ static Reg r_tauf("tauf", [](const Args& a) {
   // tauf inverts taupf (relative, on both sides)
   if (std::isfinite(taup) && std::fabs(es) < 0.9) {
     double back = Math::taupf(t, es); double e2m = 1 - es * std::fabs(es);
-    if (!(std::fabs(back - taup) <= 64 * 2.3e-16 / std::fmin(1.0, e2m) * std::fmax(std::fabs(taup), 1e-300))) bad("tauf-inverts-taupf", "taupf(tauf(" + num(taup) + ")) = " + num(back));
+    if (!(std::fabs(back - taup) <= 64 * 2.3e-16 / std::fmin(1.0, e2m) * std::fmax(std::fabs(taup), 1e-300))) badt("tauf-inverts-taupf", "taupf(tauf(" + num(taup) + ")) = " + num(back));
   }
 });
 static Reg r_psfwd("psfwd", [](const Args& a) {
@@ -465,28 +740,87 @@ static Reg r_css("csetscale", [](const Args& a) {
   if (!e2.empty()) { emit(e2); return; }
   emit(join(members(o)).substr(1));
 });
+// the Albers helpers also face their definitions evaluated independently in binary128 (no series, no divided differences):
+//   tan(xi) = Q/sqrt((QZ - Q)(QZ + Q)), Q(s) = s/(1 - e^2 s^2) + atanh(e s)/e;   atanhxm1(x) = atanh(sqrt x)/sqrt x - 1;
+//   DDatanhee(x, y) = the second divided difference of atanh(e .)/e on the nodes 1, x, y
+static const double EPS = std::numeric_limits<double>::epsilon();
 static Reg r_ctxif("ctxif", [](const Args& a) {
-  double f = unhx(a[0]), tphi = unhx(a[1]); AlbersEqualArea q(1, f, 0, 1); double txi = q.txif(tphi); emit(hx(txi) + " " + hx(q.tphif(txi)));
+  double f = unhx(a[0]), tphi = unhx(a[1]); AlbersEqualArea q(1, f, 0, 1); double txi = q.txif(tphi), back = q.tphif(txi); emit(hx(txi) + " " + hx(back));
+  cur_tag() = ""; const double kp = kappa(f);
+  if (!(std::isfinite(tphi) && std::fabs(tphi) < 1e6 && std::fabs(tphi) > 1e-300)) return;
+  c11::Ell E(1, f); Q t = tphi, s = t / sqrtq(1 + t * t), Qs = s / (1 - E.e2 * s * s) + E.atanhee(s), QZ = 1 / (1 - E.e2) + E.atanhee(1), w = Qs / sqrtq((QZ - Qs) * (QZ + Qs));
+  if (!(std::fabs(c11::dbl((Q(txi) - w) / w)) <= 64 * EPS * kp)) badt("txif-vs-definition", "txif(" + num(tphi) + ") = " + num(txi) + " on f = " + num(f) + "; authalic tangent " + c11::qstr(w));
+  // tphif inverts txif (Newton, relative accuracy; d tan(phi)/d tan(xi) relative is (1 - e^2)-bounded: factor kappa)
+  if (!(std::fabs(back - tphi) <= 256 * EPS * kp * std::fabs(tphi))) badt("tphif-inverts-txif", "tphif(txif(" + num(tphi) + ")) = " + num(back) + " on f = " + num(f));
 });
 static Reg r_cddat("cddat", [](const Args& a) {
   double f = unhx(a[0]), x = unhx(a[1]), y = unhx(a[2]), xm = unhx(a[3]); AlbersEqualArea q(1, f, 0, 1);
-  emit(hx(q.DDatanhee(x, y)) + " " + hx(AlbersEqualArea::atanhxm1(xm)));
+  double dd = q.DDatanhee(x, y), am = AlbersEqualArea::atanhxm1(xm);
+  emit(hx(dd) + " " + hx(am));
+  c11::Ell E(1, f); const double kp = kappa(f);
+  // (the open numerical-range defect of DDatanhee2, F96: overflow of 1/(1 - e^2)^m against underflow of (1 - x)^m for 1 - e^2 < 1e-3; the
+  // cancellation for e^2 < -3, F85, is repaired by the selection rule q2 = (1 + e) e/(1 - e^2) (1 - x) for f < 0)
+  // overflow: DDatanhee2 selected (q2 < 3/4 <= q1) and the M = 16/log10(1/q2) terms it needs drive 1/(1 - e^2)^(M+2) or (1 - x)^M out of range
+  { double lo = std::fmin(x, y), e2 = e2of(f), q2 = std::fabs((f < 0 ? 1 + std::sqrt(std::fabs(e2)) : 2) * std::sqrt(std::fabs(e2)) / (1 - e2) * (1 - lo));
+    bool sel2 = lo > 0 && q2 < 0.75 && !(std::fabs(e2) < q2);
+    bool over = sel2 && e2 > 0 && (16 / -std::log10(q2) + 2) * std::fmax(-std::log10(1 - e2), -std::log10(1 - lo)) > 250;
+    cur_tag() = over ? " [class:albers-oblate-ddatanhee2-overflow]" : ""; }
+  // atanhxm1 (x < 1)
+  if (std::isfinite(xm) && xm < 1 && std::fabs(xm) > 1e-300) {
+    Q X = xm, r = sqrtq(fabsq(X)), w = fabsq(X) < Q(1e-9) ? X / 3 + X * X / 5 + X * X * X / 7 : (X > 0 ? atanhq(r) : atanq(r)) / r - 1;
+    // relative condition number of atanh(r)/r - 1 with respect to r = sqrt(x): r/((1 - r^2)) / (the value + 1), large only for x -> 1
+    double cond = 1 + (xm > 0 ? 1 / ((1 - xm) * (1 + c11::dbl(fabsq(w)))) / std::fmax(1e-300, c11::dbl(fabsq(w))) * c11::dbl(fabsq(w) + 1) : 0);
+    if (!(std::fabs(c11::dbl((Q(am) - w) / w)) <= 16 * EPS * cond)) badt("atanhxm1-vs-definition", "atanhxm1(" + num(xm) + ") = " + num(am) + "; atanh(sqrt x)/sqrt x - 1 = " + c11::qstr(w));
+  }
+  // DDatanhee: nodes 1, x, y in [-1, 1]; evaluated naively in binary128 where that keeps 60 bits
+  if (std::fabs(x) <= 1 && std::fabs(y) <= 1 && (E.e2 <= 0 || c11::dbl(E.e) < 1)) {
+    Q X = x, Y = y, A1 = E.atanhee(1), w; double gap;
+    auto D1 = [&](Q u) { return (A1 - E.atanhee(u)) / (1 - u); };                      // Datanhee(1, u)
+    if (x != y) { w = (D1(Y) - D1(X)) / (Y - X); gap = std::fabs(y - x) * std::fmin(1 - x, 1 - y); }
+    else { w = (D1(X) - 1 / (1 - E.e2 * X * X)) / (1 - X); gap = (1 - x) * (1 - x); }   // confluent: d/dx Datanhee(1, x)
+    // the binary128 evaluation loses 2^-113 (|A| sum)/gap; it is used where that is below a thousandth of the tolerance
+    double lo = std::fmin(x, y), scale = c11::dbl(fabsq(D1(X)) + fabsq(D1(Y))) / (1 - lo);
+    // the value is a second derivative of atanh(e .)/e at a point of [min, 1]: relative condition number 2/(1 - e^2); where 1 - min >= 1/4
+    // a straight divided difference (D(1, y) - D(x, y))/(1 - x) is legitimate, whose error is relative to its operands
+    double tol = 64 * EPS * 2 * kp * (std::fabs(c11::dbl(w)) + (1 - lo >= 0.25 ? scale : 0));
+    if (c11::fin(w) && w != 0 && gap > 0 && 4 * 1.9e-34 * c11::dbl(fabsq(A1) + fabsq(E.atanhee(X)) + fabsq(E.atanhee(Y))) / gap <= 1e-3 * tol) {
+      if (!(std::fabs(c11::dbl(Q(dd) - w)) <= tol)) badt("DDatanhee-vs-definition", "DDatanhee(" + num(x) + ", " + num(y) + ") = " + num(dd) + " on f = " + num(f) + "; second divided difference " + c11::qstr(w) + " (tolerance " + num(tol) + ")");
+    }
+  }
 });
 
 // ---------------------------------------------------------------------------------------------------------------
 // generators
 static const double WGS84_a = 6378137, WGS84_f = 1 / 298.257223563;
-static double pickf(Rng& r) { static const std::vector<double> fs = {WGS84_f, 0, 0.1, -0.1, 1 / 150.0, WGS84_f, WGS84_f}; return r.pick(fs); }
-static double pickk(Rng& r) { static const std::vector<double> ks = {1, 1, 0.9996, 0.994, 0.5, 2, 1.25}; return r.pick(ks); }
+// Ellipsoid strata.  "terrestrial": the flattenings the headers' accuracy figures were established for (and +-0.1);
+// "eccentric": the property's quantifier "all f < 1" -- flattenings whose e^2 = f(2 - f) is an exact small integer or
+// dyadic rational (a series term can vanish identically, a threshold can be hit exactly: e^2 = 3/4 is the bound
+// |e^2| < 0.75 of DDatanhee, e^2 = -3 annihilates every sixth term of DDatanhee2), their one-ulp neighbours, e^2 ~ 1/2, ~ -1,
+// strongly prolate and strongly oblate bodies.
+static const std::vector<double>& ecc_fs() {
+  static const std::vector<double> v = {0.5, -0.5, 0.25, -0.25, 0.75, 1 - std::sqrt(0.5), 1 - std::sqrt(2.0), -1.0, std::nextafter(-1.0, 0.0), std::nextafter(-1.0, -2.0),
+                                        -2.0, -3.0, -5.0, 0.9, 0.99};
+  return v;
+}
+static double pickf(Rng& r, bool* ecc = nullptr) {
+  static const std::vector<double> fs = {WGS84_f, 0, 0.1, -0.1, 1 / 150.0, WGS84_f, WGS84_f};
+  bool e = r.irange(0, 3) == 0; if (ecc) *ecc = e; return e ? r.pick(ecc_fs()) : r.pick(fs);
+}
+static double pickk(Rng& r) {
+  static const std::vector<double> ks = {1, 1, 0.9996, 0.994, 0.5, 2, 1.25}, far = {1e-3, 1e3, 0.03, 40};
+  return r.irange(0, 9) == 0 ? r.pick(far) : r.pick(ks);
+}
+static double picka(Rng& r) { return r.irange(0, 5) ? WGS84_a : r.pick(std::vector<double>{6.4e6, 1.0, 6378388.0, 1e-3, 1e10}); }
 static double picklat(Rng& r, const Cfg& c) {
   double l1, l2; stdlats(c, l1, l2);
-  switch (r.irange(0, 11)) {
+  switch (r.irange(0, 12)) {
   case 0: return r.pick(std::vector<double>{90, -90, 0, 45, -45, 60, -30, 89, -89});
   case 1: { double e = std::pow(10.0, -r.irange(1, 12)); return (90 - e) * (r.coin() ? 1 : -1); }
   case 2: return (r.coin() ? 1 : -1) * std::pow(10.0, -r.irange(1, 12));
   case 3: return r.coin() ? l1 : l2;
   case 4: return std::fmax(-90.0, std::fmin(90.0, (r.coin() ? l1 : l2) + r.range(-1, 1)));
   case 5: return double(r.irange(-90, 90));
+  case 6: { Obj o; if (c.cls != 0 && build(c, o, false).empty()) { double l0 = o.lat0(); if (std::fabs(l0) <= 90) return r.coin() ? l0 : nextup(l0, r.irange(-2, 2) + 2) - 2 * ulp(l0); } return 0; }   // the origin (psi = psi0: the dpsi == 0 branch) and its neighbours
   default: return r.range(-90, 90);
   }
 }
@@ -506,12 +840,12 @@ static void picklon(Rng& r, double& lon0, double& lon) {
 }
 // stratified configurations; returns the stratum name
 static std::string pickcfg(Rng& r, Cfg& c) {
-  c.cls = r.irange(0, 8) == 0 ? 0 : (r.coin() ? 1 : 2); c.a = r.irange(0, 5) ? WGS84_a : r.pick(std::vector<double>{6.4e6, 1.0, 6378388.0}); c.f = pickf(r); c.k1 = pickk(r);
+  bool ecc; c.cls = r.irange(0, 8) == 0 ? 0 : (r.coin() ? 1 : 2); c.a = picka(r); c.f = pickf(r, &ecc); c.k1 = pickk(r);
   c.kind = 2; c.p[0] = c.p[1] = c.p[2] = c.p[3] = 0; c.ss = 0; c.sslat = 0; c.ssk = 1;
   std::string s;
   if (c.cls == 0) { c.kind = 1; c.p[0] = 90; s = "ps"; }
   else {
-    int st = r.irange(0, 13);
+    int st = r.irange(0, 17);
     auto lat = [&] { return r.range(-89, 89); };
     switch (st) {
     case 0: c.kind = 1; c.p[0] = r.coin() ? lat() : double(r.irange(-89, 89)); s = "one-parallel"; break;
@@ -528,17 +862,35 @@ static std::string pickcfg(Rng& r, Cfg& c) {
     case 11: { c.kind = 3; double l1 = lat(), l2 = r.coin() ? l1 : lat(); Math::sincosd(l1, c.p[0], c.p[1]); Math::sincosd(l2, c.p[2], c.p[3]); s = "sincos"; break; }
     case 12: { c.kind = 3; double cc = std::pow(10.0, -r.irange(4, 12)), sg = r.coin() ? 1 : -1; c.p[0] = sg * std::sqrt(1 - cc * cc); c.p[1] = cc;
                if (r.coin()) { c.p[2] = c.p[0]; c.p[3] = c.p[1]; } else { double l2 = sg * r.range(20, 80); Math::sincosd(l2, c.p[2], c.p[3]); } s = "sincos-near-pole"; break; }
+    // thresholds of Init and Reverse: cone constant n = sin(lat0) near 1/4 (direct / careful 1 - n), near 1/2 (the two forms of
+    // tan(chi) in Reverse), cos(lat0) near 1/2 (the two forms of drho)
+    case 13: { static const std::vector<double> t0 = {14.477512185929923, 30, 60}; double m = r.pick(t0) * (r.coin() ? 1 : -1), d = r.coin() ? std::pow(10.0, -r.irange(0, 9)) : r.range(0.1, 12);
+               if (r.irange(0, 3) == 0) { c.kind = 1; c.p[0] = m; } else { c.p[0] = m - d; c.p[1] = m + d * r.range(0.9, 1.1); if (r.coin()) std::swap(c.p[0], c.p[1]); } s = "cone-constant-thresholds"; break; }
+    // one parallel exactly on the equator, the other not (sphi1 == 0: the `<= 0`, `> 0`, `< 0` tests of Init on the boundary)
+    case 14: { c.p[0] = 0; c.p[1] = r.coin() ? lat() : double(r.irange(1, 89)) * (r.coin() ? 1 : -1); if (r.coin()) std::swap(c.p[0], c.p[1]); if (r.irange(0, 3) == 0) { c.kind = 3; double a1 = c.p[0], a2 = c.p[1]; Math::sincosd(a1, c.p[0], c.p[1]); Math::sincosd(a2, c.p[2], c.p[3]); } s = "equator-and-other"; break; }
+    // both in one hemisphere with the lower one close to the equator (the Taylor series of DDatanhee in 1 - sin(phi1) at its slowest)
+    case 15: { double sg = r.coin() ? 1 : -1; c.p[0] = sg * std::pow(10.0, r.range(-6, 1)); c.p[1] = sg * r.range(1, 89); if (r.coin()) std::swap(c.p[0], c.p[1]); s = "low-and-high"; break; }
     default: c.p[0] = double(r.irange(-8, 8) * 10); c.p[1] = double(r.irange(-8, 8) * 10); s = "integer-degrees"; break;
     }
   }
   if (r.irange(0, 3) == 0) {
-    c.ss = 1; c.ssk = r.pick(std::vector<double>{1, 0.97, 0.5, 1.5, 0.9996});
+    c.ss = 1; c.ssk = r.irange(0, 9) ? r.pick(std::vector<double>{1, 0.97, 0.5, 1.5, 0.9996}) : r.pick(std::vector<double>{1e-3, 250});
     c.sslat = r.irange(0, 3) ? r.range(-80, 80) : double(r.irange(-8, 8) * 10);
     if (c.cls == 0 && r.irange(0, 3) == 0) c.sslat = 90;
     if (c.cls == 1) { Obj o; if (build(c, o, false).empty() && o.lcc->_nc == 0 && r.coin()) c.sslat = 90 * o.lcc->_sign; }
     s += "+setscale";
   }
-  return std::string(c.cls == 0 ? "" : c.cls == 1 ? "lcc-" : "albers-") + s;
+  return std::string(ecc ? "ecc/" : "") + std::string(c.cls == 0 ? "" : c.cls == 1 ? "lcc-" : "albers-") + s;
+}
+// exact "nice" arguments of the Albers helpers: thresholds 0, 1/2, powers of two (frexp boundary of the term count), 1
+static double nice_xm(Rng& r) {
+  switch (r.irange(0, 6)) {
+  case 0: return 0;
+  case 1: { double v = r.coin() ? 0.5 : -0.5; int j = r.irange(-2, 2); return j < 0 ? nextdn(v, -j) : nextup(v, j); }
+  case 2: { double v = std::ldexp(1.0, -r.irange(1, 60)) * (r.coin() ? 1 : -1); int j = r.irange(-1, 1); return j < 0 ? nextdn(v, 1) : j > 0 ? nextup(v, 1) : v; }
+  case 3: return r.pick(std::vector<double>{1e-300, -1e-300, 5e-324, -5e-324, 0.75, -0.75, -3, -1, -8, -35, 0.9375, 0.99, 0.9999});
+  default: return (r.coin() ? 1 : -1) * r.pick(std::vector<double>{0.25, 0.125, 0.375, 0.4999999999999999, 0.1, 1e-8});
+  }
 }
 
 void gv::generate(const std::string& tier, uint64_t seed) {
@@ -556,48 +908,85 @@ void gv::generate(const std::string& tier, uint64_t seed) {
     c.p[0] = -1; c.p[2] = -1; fixed.push_back(c);                                                      // AzimuthalEqualAreaSouth
     c.cls = 1; c.kind = 2; c.p[0] = 40 + 58 / 60.0; c.p[1] = 39 + 56 / 60.0; c.p[2] = c.p[3] = 0; c.k1 = 1; fixed.push_back(c);   // Pennsylvania south (example of the header)
     c.cls = 2; c.p[0] = 40 + 58 / 60.0; c.p[1] = 39 + 56 / 60.0; fixed.push_back(c);
-    for (auto& fc : fixed) for (int i = 0; i < 6; ++i) {
+    // the witness of F61: f = -1 (e^2 = -3), parallels 20 and 50, and the same for every eccentric flattening and both classes
+    for (double f : ecc_fs()) for (int cls = 1; cls <= 2; ++cls) { c.cls = cls; c.kind = 2; c.a = 1; c.f = f; c.p[0] = 20; c.p[1] = 50; c.k1 = 1; fixed.push_back(c); }
+    // the witness of the cycling Newton iteration of AlbersEqualArea::Init: f = 0.9, parallels -68.21929 and 85.9048
+    c.cls = 2; c.kind = 2; c.a = 1; c.f = 0.9; c.p[0] = -68.21929; c.p[1] = 85.9048; c.k1 = 1; fixed.push_back(c);
+    for (auto& fc : fixed) for (int i = 0; i < (fc.a == 1 ? 2 : 6); ++i) {
       double lon0, lon; picklon(r, lon0, lon); double lat = picklat(r, fc);
       run("pt", A({enc(fc), {std::to_string(int(r.coin())), hx(lon0), hx(lat), hx(lon)}})); stratum("fixed-instances");
+      if (fc.a == 1 && i == 0) { run("cfgprops", A({enc(fc), {hx(picklat(r, fc)), hx(r.range(-80, 80)), hx(r.range(-89, 89)), hx(r.range(-170, 170))}})); stratum("fixed-instances"); }
+    }
+    // the static instances themselves
+    for (int idx = 0; idx < 5; ++idx) for (int i = 0; i < 8; ++i) {
+      double lon0, lon; picklon(r, lon0, lon); Cfg sc = static_cfg(idx); double lat = picklat(r, sc);
+      run("statics", {std::to_string(idx), std::to_string(int(r.coin())), hx(lon0), hx(lat), hx(lon)}); stratum("static-instances");
     }
   }
   for (long i = 0; i < ncfg; ++i) {
     Cfg c; std::string st = pickcfg(r, c); Args ec = enc(c);
+    // inside the class of an open finding the kernel models are not run against the implementation (both are meaningless
+    // there); the property-level oracles are, and report with the class tag
+    const bool inclass = init_class(c);
     int npts = 6;
     for (int j = 0; j < npts; ++j) {
       double lon0, lon; picklon(r, lon0, lon); double lat = picklat(r, c);
       run("pt", A({ec, {std::to_string(int(r.coin())), hx(lon0), hx(lat), hx(lon)}})); stratum(st);
       if (i < 2 && j == 0) sample(current_op());
-      if (c.cls != 0 && j < 2) {
+      if (c.cls != 0 && j < 2 && !inclass) {
         run(c.cls == 1 ? "lccfwd" : "albfwd", A({ec, {hx(lon0), hx(lat), hx(lon)}})); stratum("kernel-forward");
         run("conicfwd", A({ec, {hx(lon0), hx(lat), hx(lon)}}));
-        double x = r.range(-1, 1) * 8e6, y = r.range(-1, 1) * 8e6; if (j == 0) { Obj o; if (build(c, o).empty()) { double g, k; o.Fwd(true, lon0, lat, lon, x, y, g, k); } }
+        double x = r.range(-1, 1) * 8e6 * (c.a / WGS84_a), y = r.range(-1, 1) * 8e6 * (c.a / WGS84_a); if (j == 0) { Obj o; if (build(c, o).empty()) { double g, k; o.Fwd(true, lon0, lat, lon, x, y, g, k); } }
         run("conicrev", A({ec, {hx(lon0), hx(x), hx(y)}}));
         { Obj o2; double sg = 1; if (build(c, o2).empty()) sg = c.cls == 1 ? o2.lcc->_sign : o2.alb->_sign;
           run(c.cls == 1 ? "lccrev" : "albrev", A({ec, {hx(x), hx(y * sg)}})); stratum("kernel-reverse"); }
       }
     }
-    if (c.cls != 0) { run(c.cls == 1 ? "lccinit" : "albinit", ec); stratum("kernel-init"); if (c.ss) { run("csetscale", ec); stratum("kernel-setscale"); } }
+    if (c.cls != 0 && !inclass) { run(c.cls == 1 ? "lccinit" : "albinit", ec); stratum("kernel-init"); if (c.ss) { run("csetscale", ec); stratum("kernel-setscale"); } }
+    // SetScale on an object whose scale was already changed (1-4 earlier calls)
+    if (r.irange(0, 3) == 0) {
+      Cfg ch = c; ch.ss = 0; int n = r.irange(2, 5); Args h = {std::to_string(n)}; bool polarcone = false; double sgn = 1;
+      if (c.cls == 1) { Obj o; if (build(ch, o).empty()) { polarcone = o.lcc->_nc == 0; sgn = o.lcc->_sign; } }
+      for (int j = 0; j < n; ++j) { double sl = r.irange(0, 3) ? r.range(-80, 80) : double(r.irange(-8, 8) * 10); if (c.cls == 0 && r.irange(0, 3) == 0) sl = 90; if (polarcone && r.irange(0, 2) == 0) sl = 90 * sgn;
+                                    h.push_back(hx(sl)); h.push_back(hx(pickk(r))); }
+      run("sshist", A({enc(ch), h, {hx(picklat(r, c)), hx(r.range(-80, 80)), hx(r.range(-89, 89)), hx(r.range(-170, 170))}})); stratum("setscale-history");
+    }
+    // the command-line front end
+    if (c.cls != 0 && c.kind == 2 && r.irange(0, 2) == 0) {
+      bool rev = r.coin(); double lon0, lon; picklon(r, lon0, lon); double u = picklat(r, c), v = lon; if (r.irange(0, 15) == 0) u = r.pick(std::vector<double>{91, -90.5, 1e3});
+      if (rev) { Obj o; u = r.range(-1, 1) * 8e6 * (c.a / WGS84_a); v = r.range(-1, 1) * 8e6 * (c.a / WGS84_a); if (r.coin() && build(c, o, false).empty()) { double g, k; o.Fwd(true, lon0, picklat(r, c), lon, u, v, g, k); } }
+      if (std::isfinite(u) && std::isfinite(v)) {
+        run("conicproj", {std::to_string(c.cls), hx(c.a), hx(c.f), hx(c.p[0]), hx(c.p[1]), hx(c.k1), hx(lon0), std::to_string(int(rev)), std::to_string(int(r.coin())),
+                          std::to_string(r.pick(std::vector<int>{6, 6, 0, 10, 3, 12, -2})), hx(u), hx(v)}); stratum("tool-ConicProj"); }
+    }
     {
       double f = pickf(r), tphi = r.irange(0, 3) ? std::tan(r.range(-1.5707, 1.5707)) : (r.coin() ? 1 : -1) * std::pow(10.0, r.range(-10, 12));
+      if (r.irange(0, 12) == 0) tphi = r.pick(std::vector<double>{0.0, 1.0, -1.0, 1e-300, 0.5773502691896257, 1.7320508075688772});
       run("ctxif", {hx(f), hx(tphi)});
       double y = r.irange(0, 2) ? r.range(-1, 1) : 1 - std::pow(10.0, -r.range(0, 12)), x = r.irange(0, 2) ? r.range(-1, y) : y - std::pow(10.0, -r.range(1, 12)) * (1 + y);
       if (r.irange(0, 5) == 0) x = y; if (x < -1) x = -1;
-      double xm = r.irange(0, 2) ? (r.coin() ? 1 : -1) * std::pow(10.0, r.range(-20, -0.3)) : r.range(-0.9, 0.9); if (r.irange(0, 20) == 0) xm = 0;
+      // exact arguments: both at the pole (dx = dy = 0), one at the pole, the lower one 0 / -0 / +-tiny (the `x <= 0` test), swapped order
+      switch (r.irange(0, 11)) { case 0: x = y = 1; break; case 1: y = 1; break; case 2: x = r.pick(std::vector<double>{0.0, -0.0, 5e-324, -5e-324, 1e-300}); y = std::fabs(y); break; case 3: std::swap(x, y); break; default: break; }
+      double xm = r.irange(0, 2) ? (r.coin() ? 1 : -1) * std::pow(10.0, r.range(-20, -0.3)) : r.range(-0.9, 0.9); if (r.irange(0, 4) == 0) xm = nice_xm(r);
       run("cddat", {hx(f), hx(x), hx(y), hx(xm)}); stratum("albers-helpers");
     }
     run("cfgprops", A({ec, {hx(picklat(r, c)), hx(r.range(-80, 80)), hx(r.range(-89, 89)), hx(r.range(-170, 170))}})); stratum("cfg-" + st);
     // polar stereographic formula model and tauf/taupf
     {
       double f = pickf(r), k0 = pickk(r), lat = picklat(r, c), lon = nasty_angle(r); if (std::fabs(lon) > 1e6) lon = r.range(-180, 180);
+      double pa = picka(r);
       int np = r.coin();
-      run("psfwd", {hx(WGS84_a), hx(f), hx(k0), std::to_string(np), hx(lat), hx(lon)}); stratum("ps-forward-model");
-      PolarStereographic p(WGS84_a, f, k0); double x, y; p.Forward(np, r.irange(0, 9) ? lat : 90.0 * (np ? 1 : -1), lon, x, y);
-      if (std::isfinite(x) && std::isfinite(y)) { run("psrev", {hx(WGS84_a), hx(f), hx(k0), std::to_string(np), hx(x), hx(y)}); stratum("ps-reverse-model"); }
+      run("psfwd", {hx(pa), hx(f), hx(k0), std::to_string(np), hx(lat), hx(lon)}); stratum("ps-forward-model");
+      PolarStereographic p(pa, f, k0); double x, y; p.Forward(np, r.irange(0, 9) ? lat : 90.0 * (np ? 1 : -1), lon, x, y);
+      if (std::isfinite(x) && std::isfinite(y)) { run("psrev", {hx(pa), hx(f), hx(k0), std::to_string(np), hx(x), hx(y)}); stratum("ps-reverse-model"); }
       double sl = r.irange(0, 4) ? r.range(-89.9, 90) : 90.0;
-      run("pssetscale", {hx(WGS84_a), hx(f), hx(k0), hx(sl), hx(pickk(r))}); stratum("ps-setscale-model");
+      run("pssetscale", {hx(pa), hx(f), hx(k0), hx(sl), hx(pickk(r))}); stratum("ps-setscale-model");
       double e2 = f * (2 - f), es = (f < 0 ? -1 : 1) * std::sqrt(std::fabs(e2));
       double tau = r.irange(0, 3) ? std::tan(r.range(-1.57, 1.57)) : (r.coin() ? 1 : -1) * std::pow(10.0, r.range(-12, 12));
+      // the thresholds of tauf: |taup| > 70 (starting guess), |tau| >= 2/sqrt(eps) (early exit)
+      if (r.irange(0, 9) == 0) { double v = r.pick(std::vector<double>{70.0, 2 / std::sqrt(EPS), 0.0, 1.0}); int j = r.irange(-2, 2); tau = (j < 0 ? nextdn(v, -j) : nextup(v, j)) * (r.coin() ? 1 : -1); }
+      // e^2 so close to 1 that the low-order guess taup/(1 - e^2) exceeds 2/sqrt(eps) although |taup| <= 70 (the early exit repaired by b3c5a1d)
+      if (r.irange(0, 19) == 0) { es = r.pick(std::vector<double>{0.9999999, 0.99999999, 1 - 1e-10}); tau = r.range(1, 70) * (r.coin() ? 1 : -1); }
       run("ctaupf", {hx(tau), hx(es)}); run("tauf", {hx(tau), hx(es)}); stratum("tauf-taupf");
     }
     // divided-difference helpers
@@ -607,11 +996,12 @@ void gv::generate(const std::string& tier, uint64_t seed) {
       double lo = -5, hi = 5; if (w == 2) { lo = -0.9; hi = 20; } if (w == 6 || w == 7) { lo = -1; hi = 1; } if (w == 0 || w == 1 || w == 5 || w == 8) { lo = -1e3; hi = 1e3; }
       x = base(lo, hi); if (r.irange(0, 4) == 0) x = (r.coin() ? 1 : -1) * std::pow(10.0, r.range(-8, std::log10(hi)));
       if (w == 2 && x <= -1) x = 0.5;
-      switch (r.irange(0, 5)) {
+      switch (r.irange(0, 6)) {
       case 0: y = x; break;
       case 1: y = nextup(x, r.irange(1, 4)); break;
       case 2: y = x + (r.coin() ? 1 : -1) * std::pow(10.0, -r.irange(3, 12)) * std::fmax(1e-3, std::fabs(x)); break;
       case 3: y = -x * r.range(0.5, 2); break;
+      case 4: y = r.coin() ? 0.0 : -0.0; if (r.coin()) std::swap(x, y); break;     // the product x*y exactly 0 (the `t > 0`, `x*y < 0`, `x*y > 0` tests)
       default: y = base(lo, hi); break;
       }
       if (w == 2 && y <= -0.95) y = 0.25; if ((w == 6 || w == 7) && std::fabs(y) > 1) y = 1; if (w == 6 || w == 7) { if (std::fabs(x) > 1) x = 1; }
@@ -622,7 +1012,7 @@ void gv::generate(const std::string& tier, uint64_t seed) {
       static const std::vector<double> ls = {90, -90, 0, 30, -24.57, 45, 89.99999, 91, -90.0000001, 100, 1e-300};
       double l1 = r.irange(0, 2) ? r.pick(ls) : r.range(-95, 95), l2 = r.irange(0, 2) ? r.pick(ls) : (r.coin() ? l1 : r.range(-95, 95));
       if (r.irange(0, 30) == 0) l1 = std::nan(""); if (r.irange(0, 30) == 0) l2 = INFINITY;
-      double ea = r.irange(0, 9) ? WGS84_a : r.pick(std::vector<double>{0.0, -1.0, INFINITY, std::nan("")}), f = r.irange(0, 9) ? pickf(r) : r.pick(std::vector<double>{1.0, 2.0, std::nan(""), -INFINITY, 0.99});
+      double ea = r.irange(0, 9) ? WGS84_a : r.pick(std::vector<double>{0.0, -1.0, INFINITY, std::nan("")}), f = r.irange(0, 9) ? pickf(r) : r.pick(std::vector<double>{1.0, 2.0, std::nan(""), -INFINITY, 0.99, std::nextafter(1.0, 0.0)});
       double k = r.irange(0, 9) ? pickk(r) : r.pick(std::vector<double>{0.0, -1.0, INFINITY, std::nan("")});
       run("ctor", {std::to_string(r.irange(1, 2)), hx(ea), hx(f), hx(k), hx(l1), hx(l2)}); stratum("constructor-domain");
     }
